@@ -7,12 +7,20 @@
 
    Plan.
    1. NpLite: broadcasting on row-shaped values (0-d or (k,)), the outer product `(k,1) x (1,r)`, squeeze;
-   2. Engine.input_values setter / getter;
-   3. one row i of a batch state = a scalar engine state: lockstep of membership, grouped terms, antecedent degrees,
-      Consequent.modify, the General loop;
-   4. defuzzifiers: Activated / Aggregated.membership on the sample matrix, integral and weighted defuzzifiers;
-   5. the cascade on a batch = the one-element cascade folded over the rows;
-   6. composition: batch_eq_rows. *)
+   2. Engine.input_values setter / getter (`input_values_set_matrix`, `input_values_setter_getter`, ...);
+   3. Section Row: ONE row i of a batch state over (e, ins) against a scalar engine holding row i of the inputs —
+      lockstep of Term.membership, grouped terms, antecedent degrees, Consequent.modify, the General loop
+      (`blocks_step_row`: the batch loop and Spec/Pipeline.v's `blocks_contribution` succeed / fail together and the
+      scalar fuzzy outputs are row i of the batch's);
+   4. defuzzifiers: Activated / Aggregated.membership on the sample matrix (`yok` / `yrow`: the shapes the matrix can
+      take under `r_ok`), integral (`integral_defuzzify_row`; the empty fuzzy output needs `zero_laws`) and weighted
+      (`weighted_defuzzify_row`) defuzzifiers;
+   5. the cascade: `output_defuzzify_row` (element i of the committed batch value = the value row i commits when it starts
+      from element i-1), `cascade_batch_rows` (split invariance with singleton cuts);
+   6. composition: `step_row` / `rows_from` (induction over the rows, carrying the engine), `first_row_err`, and
+      `batch_eq_rows`, through Proofs/EngineProofs.v (`process_refines_pipeline`: Engine.process = the pipeline under
+      General activation; the rule records left by a row do not matter to the next);
+   7. the statements quoted by Properties/C02.v. *)
 From Coq Require Import ZArith Bool List String Lia.
 From VF Require Import Num GenNorm GenHedge GenTerm Core Discrete NpSum NpLite Defuzz Antecedent Consequent Activation
   Weighted Cascade Engine Ops Pipeline EngineProofs CascadeProofs Batch.
@@ -206,6 +214,11 @@ Section Squeeze.
   Qed.
 
   (* ... and at r = 1 turns k >= 2 rows of one sample into ONE row of k samples *)
+  Lemma squeeze_two_rows (r0 r1 : list X) (rows : list (list X)) :
+    squeeze (Mat (r0 :: r1 :: rows)) =
+    if Nat.eqb (length r0) 1 then Vec (List.concat (r0 :: r1 :: rows)) else Mat (r0 :: r1 :: rows).
+  Proof. destruct r0 as [|x [|y r0]]; reflexivity. Qed.
+
   Lemma squeeze_resolution1 (col : list X) :
     2 <= length col -> squeeze (Mat (map (fun x => [x]) col)) = Vec col.
   Proof.
@@ -544,6 +557,158 @@ Section GroupedScalar.
     destruct (String.eqb (act_name g) name); [reflexivity | exact IH].
   Qed.
 End GroupedScalar.
+
+(* ---- the defuzzification of an EMPTY fuzzy output: Aggregated.membership returns the 0-d 0.0, the integral
+        defuzzifiers see a (1,1) matrix against r sample points; the scalar model sees r zeros.  Both are NaN for the
+        same reason; the numeric facts needed are closed equations (true of binary64 by computation). *)
+Section ZeroLaws.
+  Context {T : Type} {N : Num T}.
+
+  Definition nan_t : T := nabs (sub (div zero zero) half).       (* |0/0 - 0.5| *)
+  Record zero_laws : Prop := {
+    zl_add00 : add zero zero = (zero : T);
+    zl_addn0 : add (neg zero) zero = (zero : T);
+    zl_nmax00 : nmax zero zero = (zero : T);
+    zl_lt00 : ltb (zero : T) zero = false;
+    zl_nmin_tt : nmin nan_t nan_t = nan_t;
+    zl_eqb_tt : eqb nan_t nan_t = false }.
+  Hypothesis L : zero_laws.
+
+  Definition zeros (n : nat) : list T := repeat zero n.
+
+  Lemma seq_add_zeros n : seq_add zero (zeros n) = zero.
+  Proof. induction n as [|n IH]; cbn; [reflexivity|]. unfold seq_add in *. cbn. rewrite (zl_add00 L). exact IH. Qed.
+  Lemma seq_add_neg_zeros n : seq_add (neg zero) (zeros (S n)) = zero.
+  Proof. unfold seq_add. cbn. rewrite (zl_addn0 L). apply seq_add_zeros. Qed.
+
+  Lemma pw_loop_zeros nb : forall n,
+    exists m, pw_loop nb (zero, zero, zero, zero, zero, zero, zero, zero) (zeros n)
+              = ((zero, zero, zero, zero, zero, zero, zero, zero), zeros m).
+  Proof.
+    induction nb as [|nb IH]; intros n; cbn [pw_loop]; [eauto|].
+    destruct n as [|[|[|[|[|[|[|[|n]]]]]]]]; cbn [zeros repeat];
+      try first [exists 0; reflexivity | exists 1; reflexivity | exists 2; reflexivity | exists 3; reflexivity
+                | exists 4; reflexivity | exists 5; reflexivity | exists 6; reflexivity | exists 7; reflexivity].
+    rewrite !(zl_add00 L). apply IH.
+  Qed.
+
+  Lemma pw_block_zeros n : pw_block (zeros (S n)) = zero.
+  Proof.
+    destruct n as [|[|[|[|[|[|[|n]]]]]]]; try exact (seq_add_neg_zeros _).
+    change (zeros (S (S (S (S (S (S (S (S n))))))))) with (zero :: zero :: zero :: zero :: zero :: zero :: zero :: zero :: zeros n).
+    cbn [pw_block].
+    destruct (pw_loop_zeros (length (zeros n) / 8) n) as (m & Hm). rewrite Hm.
+    rewrite !(zl_add00 L). apply seq_add_zeros.
+  Qed.
+
+  Lemma firstn_zeros a n : firstn a (zeros n) = zeros (Nat.min a n).
+  Proof. revert n; induction a as [|a IH]; intros [|n]; cbn; try reflexivity. f_equal. apply IH. Qed.
+  Lemma skipn_zeros a n : skipn a (zeros n) = zeros (n - a).
+  Proof. revert n; induction a as [|a IH]; intros [|n]; cbn; try reflexivity. apply IH. Qed.
+
+  Lemma pw_sum_zeros fuel : forall n, pw_sum fuel (S n) (zeros (S n)) = zero.
+  Proof.
+    induction fuel as [|fuel IH]; intros n; cbn [pw_sum]; [apply pw_block_zeros|].
+    destruct (Nat.leb_spec (S n) 128) as [Hle|Hgt]; [apply pw_block_zeros|].
+    set (h := S n / 2). set (n2 := h - h mod 8).
+    assert (Hh : 64 <= h) by (subst h; apply Nat.div_le_lower_bound; lia).
+    assert (Hh2 : 2 * h <= S n) by (subst h; apply Nat.mul_div_le; lia).
+    assert (Hm : h mod 8 < 8) by (apply Nat.mod_upper_bound; lia).
+    assert (Hn2 : 0 < n2 < S n) by (subst n2; lia).
+    rewrite firstn_zeros, skipn_zeros. replace (Nat.min n2 (S n)) with n2 by lia.
+    destruct n2 as [|a]; [lia|]. destruct (S n - S a) as [|b] eqn:Eb; [lia|].
+    rewrite !IH. apply (zl_add00 L).
+  Qed.
+
+  Lemma np_sum_zeros n : np_sum (zeros (S n)) = zero.
+  Proof. unfold np_sum. unfold zeros at 1 2. rewrite repeat_length. rewrite pw_sum_zeros. apply (zl_add00 L). Qed.
+
+  Lemma map_const_zeros {A : Type} (l : list A) : map (fun _ => (zero : T)) l = zeros (length l).
+  Proof. induction l as [|a l IH]; cbn; [reflexivity|]. f_equal. exact IH. Qed.
+
+  Lemma cumsum_from_zeros n : cumsum_from zero (zeros n) = zeros n.
+  Proof. induction n as [|n IH]; cbn; [reflexivity|]. rewrite (zl_add00 L). f_equal. exact IH. Qed.
+  Lemma nan0_zero : nan0 (zero : T) = zero.
+  Proof. unfold nan0. destruct (isnan zero); reflexivity. Qed.
+  Lemma nancumsum_zeros n : nancumsum (zeros n) = zeros n.
+  Proof.
+    unfold nancumsum. replace (map nan0 (zeros n)) with (zeros n).
+    - destruct n as [|n]; cbn; [reflexivity|]. f_equal. apply cumsum_from_zeros.
+    - induction n as [|n IH]; cbn; [reflexivity|]. rewrite nan0_zero. f_equal. exact IH.
+  Qed.
+  Lemma last_elem_zeros n : last_elem (zeros (S n)) = Ok zero.
+  Proof. induction n as [|n IH]; [reflexivity|]. change (zeros (S (S n))) with (zero :: zeros (S n)). cbn [last_elem]. exact IH. Qed.
+  Lemma fold_nmin_t n : fold_left nmin (repeat nan_t n) nan_t = nan_t.
+  Proof. induction n as [|n IH]; cbn; [reflexivity|]. rewrite (zl_nmin_tt L). exact IH. Qed.
+  Lemma fold_nmax_0 n : fold_left nmax (zeros n) zero = zero.
+  Proof. induction n as [|n IH]; cbn; [reflexivity|]. rewrite (zl_nmax00 L). exact IH. Qed.
+  Lemma map_repeat {A B : Type} (f : A -> B) a n : map f (repeat a n) = repeat (f a) n.
+  Proof. induction n as [|n IH]; cbn; [reflexivity|]. f_equal. exact IH. Qed.
+  Lemma select_false (xs : list T) : select (repeat false (length xs)) xs = map (fun x => where_ false x nan) xs.
+  Proof. unfold select. induction xs as [|x xs IH]; cbn; [reflexivity|]. f_equal. exact IH. Qed.
+
+  (* the (1,1) zero against r sample points = r zeros against r sample points *)
+  Lemma defuzz_narrow_zero kd (xs : list T) : xs <> [] ->
+    defuzz_narrow kd xs zero = defuzzify_samples kd xs (map (fun _ => zero) xs).
+  Proof.
+    intros Hxs. unfold defuzzify_samples. rewrite map_length, Nat.eqb_refl. cbn [negb].
+    rewrite map_const_zeros. destruct xs as [|x0 xs']; [congruence|]. set (xs := x0 :: xs') in *.
+    change (length xs) with (S (length xs')).
+    assert (Hmask : maxima_mask (zeros (S (length xs'))) = Ok (repeat false (S (length xs')))).
+    { unfold maxima_mask, amax, reduce1. cbn [zeros repeat]. change (repeat zero (length xs')) with (zeros (length xs')).
+      rewrite fold_nmax_0. cbn [bind]. f_equal.
+      change (zero :: zeros (length xs')) with (zeros (S (length xs'))). unfold zeros. rewrite map_repeat.
+      unfold gtb. rewrite (zl_lt00 L). reflexivity. }
+    assert (Hmask1 : maxima_mask [zero] = Ok [false]).
+    { unfold maxima_mask, amax, reduce1. cbn. unfold gtb. rewrite (zl_lt00 L). reflexivity. }
+    destruct kd; cbn [defuzz_narrow].
+    - (* Bisector *)
+      unfold bisector, bisector_area. rewrite nancumsum_zeros, last_elem_zeros. cbn [bind].
+      change (nancumsum [zero]) with (nancumsum (zeros 1)). rewrite nancumsum_zeros. cbn [zeros repeat last_elem bind map].
+      fold nan_t. unfold zeros. rewrite map_repeat. fold nan_t.
+      unfold amin, reduce1. cbn [repeat fold_left bind]. rewrite fold_nmin_t. cbn [bind].
+      rewrite (zl_eqb_tt L). rewrite map_repeat, (zl_eqb_tt L).
+      try change (S (length xs')) with (length xs); try change (false :: repeat false (length xs')) with (repeat false (length xs)); rewrite select_false; reflexivity.
+    - (* Centroid *)
+      unfold centroid. f_equal. f_equal.
+      + f_equal. unfold zeros. change (S (length xs')) with (length xs). clear.
+        induction xs as [|x l IH]; cbn; [reflexivity|]. f_equal. exact IH.
+      + rewrite np_sum_zeros. exact (np_sum_zeros 0).
+    - unfold lom. rewrite Hmask, Hmask1. cbn [bind hd]. try change (S (length xs')) with (length xs); try change (false :: repeat false (length xs')) with (repeat false (length xs)); rewrite select_false; reflexivity.
+    - unfold mom. rewrite Hmask, Hmask1. cbn [bind hd]. try change (S (length xs')) with (length xs); try change (false :: repeat false (length xs')) with (repeat false (length xs)); rewrite select_false; reflexivity.
+    - unfold som. rewrite Hmask, Hmask1. cbn [bind hd]. try change (S (length xs')) with (length xs); try change (false :: repeat false (length xs')) with (repeat false (length xs)); rewrite select_false; reflexivity.
+  Qed.
+End ZeroLaws.
+
+(* the laws hold of binary64, whatever the mode and the oracle table *)
+Lemma NumF_zero_laws : forall m t, @zero_laws PrimFloat.float (NumF.NumF m t).
+Proof. intros m t. split; reflexivity. Qed.
+
+(* every integral defuzzifier returns a value on a non-empty row of samples *)
+Section SamplesOk.
+  Context {T : Type} {N : Num T}.
+  Lemma defuzzify_samples_ok kd (xs ys : list T) : length xs = length ys -> xs <> [] ->
+    exists z, defuzzify_samples kd xs ys = Ok z.
+  Proof.
+    intros Hl Hxs. unfold defuzzify_samples. rewrite (proj2 (Nat.eqb_eq _ _) Hl). cbn [negb].
+    destruct xs as [|x xs]; [congruence|]. destruct ys as [|y ys]; [discriminate|].
+    destruct kd.
+    - unfold bisector, bisector_area, nancumsum. cbn [map cumsum].
+      assert (H : exists v, last_elem (nan0 y :: cumsum_from (nan0 y) (map nan0 ys)) = Ok v).
+      { generalize (nan0 y) at 1 as a0. generalize (cumsum_from (nan0 y) (map nan0 ys)) as l. clear.
+        induction l as [|b l IH]; intros a0; cbn [last_elem]; [eauto|]. apply IH. }
+      destruct H as (v & ->). cbn [bind map amin reduce1]. eauto.
+    - eexists; reflexivity.
+    - unfold lom, maxima_mask, amax, reduce1. cbn [bind map select map2 nanmax reduce1]. eexists; reflexivity.
+    - unfold mom, maxima_mask, amax, reduce1. cbn [bind]. eexists; reflexivity.
+    - unfold som, maxima_mask, amax, reduce1. cbn [bind map select map2 nanmin reduce1]. eexists; reflexivity.
+  Qed.
+  Lemma midpoints_length (lo hi : T) res xs : midpoints lo hi res = Ok xs -> length xs = res /\ res <> 0.
+  Proof.
+    unfold midpoints. destruct (Nat.eqb_spec res 0) as [E|E]; [discriminate|]. intros H. injection H as <-.
+    unfold midpoints_list. rewrite map_length, seq_length. split; [reflexivity | exact E].
+  Qed.
+End SamplesOk.
 
 Section Row.
   Context {T : Type} {N : Num T}.
@@ -929,4 +1094,1177 @@ Section Row.
         destruct (blocks_step_b st bouts bs _) as [[recs' bouts2]|er]; cbn [bind fst snd]; [|exact IH].
         exact IH.
   Qed.
+  (* ================================================================================================ *)
+  (* 4. Defuzzifiers                                                                                   *)
+  (* ================================================================================================ *)
+  Lemma squeeze_row (a : arr T) : rowshape k a -> rowshape k (squeeze a) /\ aget nan (squeeze a) i = aget nan a i.
+  Proof.
+    destruct a as [x|l|r]; cbn [rowshape]; intros H; [split; [exact I|reflexivity]| |contradiction].
+    destruct l as [|x [|y l]]; cbn in *.
+    - split; [exact H|reflexivity].
+    - split; [exact I|]. assert (i = 0) by lia. subst i. reflexivity.
+    - split; [exact H|reflexivity].
+  Qed.
+
+  (* ---- weighted defuzzifiers *)
+  Lemma resolve_type_terms ty (l1 l2 : list (activated T)) :
+    map (@a_term T) l1 = map (@a_term T) l2 -> resolve_type ty l1 = resolve_type ty l2.
+  Proof.
+    intros H. destruct ty; try reflexivity. cbn [resolve_type]. unfold infer_type.
+    destruct l1 as [|a1 l1], l2 as [|a2 l2]; try discriminate; [reflexivity|].
+    cbn [map] in H. injection H as Ha Hl. rewrite Ha.
+    replace (forallb (fun b => wtype_eqb (term_wtype (a_term b)) (term_wtype (a_term a2))) l1)
+      with (forallb (fun b => wtype_eqb (term_wtype (a_term b)) (term_wtype (a_term a2))) l2); [reflexivity|].
+    revert l2 Hl. induction l1 as [|b l1 IH]; intros [|b2 l2] Hl; cbn in Hl; try discriminate; [reflexivity|].
+    injection Hl as Hb Hl. cbn [forallb]. rewrite Hb, (IH l2 Hl). reflexivity.
+  Qed.
+
+  Lemma term_value_row st E ty t w :
+    over st -> e_inputs E = row_inputs -> rowshape k w ->
+    match term_value_b st ty t w with
+    | Ok z => rowshape k z /\ term_value (tm E) term_tsukamoto ty t (aget nan w i) = Ok (aget nan z i)
+    | Err er => term_value (tm E) term_tsukamoto ty t (aget nan w i) = Err er
+    end.
+  Proof.
+    intros Hst HE Hw. unfold term_value_b, term_value.
+    destruct ty; try exact (term_membership_row st t w E Hst HE Hw). exact (term_tsukamoto_row t w Hw).
+  Qed.
+
+  Lemma wloop_row st E ty groups : forall ws wt,
+    over st -> e_inputs E = row_inputs -> fzshape groups -> rowshape k ws -> rowshape k wt ->
+    match wloop_b st ty groups (ws, wt) with
+    | Ok acc => rowshape k (fst acc) /\ rowshape k (snd acc) /\
+                wloop (tm E) term_tsukamoto ty (map proj_act groups) (aget nan ws i, aget nan wt i)
+                = Ok (aget nan (fst acc) i, aget nan (snd acc) i)
+    | Err er => wloop (tm E) term_tsukamoto ty (map proj_act groups) (aget nan ws i, aget nan wt i) = Err er
+    end.
+  Proof.
+    induction groups as [|g groups IH]; intros ws wt Hst HE Hg Hws Hwt; cbn [wloop_b wloop map].
+    - split; [exact Hws|]. split; [exact Hwt | reflexivity].
+    - inversion Hg as [|g' groups' Hgd Hgs]; subst. cbn [a_degree a_term proj_act fst snd].
+      pose proof (term_value_row st E ty (ba_term g) (ba_degree g) Hst HE Hgd) as Hz.
+      destruct (term_value_b st ty (ba_term g) (ba_degree g)) as [z|er]; cbn [bind]; [|rewrite Hz; reflexivity].
+      destruct Hz as [Hzs Hz]. rewrite Hz. cbn [bind].
+      destruct (lift2_rows k wcontrib (ba_degree g) z Hgd Hzs) as (wz & Hwz & Hwzs & Hwzv). rewrite Hwz. cbn [bind].
+      destruct (lift2_rows k add ws wz Hws Hwzs) as (ws' & Hws' & Hws's & Hws'v). rewrite Hws'. cbn [bind].
+      destruct (lift2_rows k add wt (ba_degree g) Hwt Hgd) as (wt' & Hwt' & Hwt's & Hwt'v). rewrite Hwt'. cbn [bind].
+      specialize (IH ws' wt' Hst HE Hgs Hws's Hwt's).
+      rewrite (Hws'v i nan nan nan Hi), (Hwzv i nan nan nan Hi), (Hwt'v i nan nan nan Hi) in IH. exact IH.
+  Qed.
+
+  Lemma weighted_defuzzify_row st E average ty agg fz :
+    over st -> e_inputs E = row_inputs -> fzshape fz ->
+    match weighted_defuzzify_b st average ty agg fz with
+    | Ok a => rowshape k a /\ weighted_defuzzify (tm E) term_tsukamoto average ty agg (map proj_act fz) = Ok (aget nan a i)
+    | Err er => weighted_defuzzify (tm E) term_tsukamoto average ty agg (map proj_act fz) = Err er
+    end.
+  Proof.
+    intros Hst HE Hfz. unfold weighted_defuzzify_b, weighted_defuzzify.
+    rewrite (resolve_type_terms ty (map static_activated fz) (map proj_act fz)) by (rewrite !map_map; reflexivity).
+    destruct (resolve_type ty (map proj_act fz)) as [this|er]; cbn [bind]; [|reflexivity].
+    destruct (grouped_terms_row agg fz Hfz) as (G & HG & HGs & HGm). rewrite HG, <- HGm. cbn [bind].
+    assert (Hinit : winit (map proj_act fz) = (aget nan (fst (winit_b fz)) i, aget nan (snd (winit_b fz)) i)).
+    { unfold winit, winit_b. destruct fz; reflexivity. }
+    rewrite Hinit.
+    pose proof (wloop_row st E this G (fst (winit_b fz)) (snd (winit_b fz)) Hst HE HGs I I) as Hw.
+    change (fst (winit_b fz), snd (winit_b fz)) with (winit_b fz) in Hw.
+    destruct (wloop_b st this G (winit_b fz)) as [[ws wt]|er]; cbn [bind]; [|rewrite Hw; reflexivity].
+    destruct Hw as (Hws & Hwt & Hw). cbn [fst snd] in *. rewrite Hw. cbn [bind].
+    unfold wfinal_b, wfinal. cbn [fst snd].
+    destruct (lift2_rows k div ws wt Hws Hwt) as (q & Hq & Hqs & Hqv). rewrite Hq. cbn [bind].
+    destruct average.
+    - destruct (squeeze_row q Hqs) as [Hs Hv]. split; [exact Hs|]. rewrite Hv, (Hqv i nan nan nan Hi). reflexivity.
+    - destruct (lift2_rows k mul q wt Hqs Hwt) as (y & Hy & Hys & Hyv). rewrite Hy. cbn [bind].
+      destruct (squeeze_row y Hys) as [Hs Hv]. split; [exact Hs|].
+      rewrite Hv, (Hyv i nan nan nan Hi), (Hqv i nan nan nan Hi). reflexivity.
+  Qed.
+  (* ---- integral defuzzifiers: the sample matrix *)
+  Lemma mapM_eq {A B : Type} (f : A -> result B) (l : list A) : Engine.mapM f l = mapM_ f l.
+  Proof. induction l as [|a l IH]; cbn; [reflexivity|]. rewrite IH. reflexivity. Qed.
+
+  Lemma mapM__bind_pure {A B C : Type} (g : A -> result B) (h : B -> C) (l : list A) :
+    mapM_ (fun x => do m <- g x; Ok (h m)) l = match mapM_ g l with Ok ms => Ok (map h ms) | Err er => Err er end.
+  Proof.
+    induction l as [|a l IH]; cbn; [reflexivity|]. destruct (g a) as [b|er]; cbn; [|reflexivity].
+    rewrite IH. destruct (mapM_ g l); reflexivity.
+  Qed.
+
+  Lemma mapM__In {A B : Type} (f : A -> result B) (l : list A) l' a :
+    mapM_ f l = Ok l' -> In a l -> exists b, f a = Ok b.
+  Proof.
+    intros H Ha. apply In_nth_error in Ha. destruct Ha as (j & Hj).
+    destruct (mapM__nth f l l' j a H Hj) as (b & Hb & _). eauto.
+  Qed.
+
+  Definition simple_term (t : term T) : Prop := match t with TLinear _ _ => False | _ => True end.
+
+  Lemma mapM__combine_step {B : Type} (am : T -> result T) (h : T -> T -> T) (K : T * T -> result B) (l : list T) :
+    forall (ys ms : list T), mapM_ am l = Ok ms -> length ys = length l ->
+    mapM_ (fun p => do m <- am (snd p); K (h (fst p) m, snd p)) (combine ys l) = mapM_ K (combine (map2 h ys ms) l).
+  Proof.
+    induction l as [|x l IH]; intros ys ms Hms Hl.
+    - destruct ys; [reflexivity | discriminate].
+    - destruct ys as [|y ys]; [discriminate|]. cbn in Hms.
+      destruct (am x) as [m|] eqn:Hx; cbn in Hms; [|discriminate].
+      destruct (mapM_ am l) as [ms'|] eqn:Hl'; cbn in Hms; [|discriminate]. injection Hms as <-.
+      cbn [combine mapM_ map2 fst snd]. rewrite Hx. cbn [bind].
+      rewrite (IH ys ms' eq_refl) by (cbn in Hl; lia). reflexivity.
+  Qed.
+  Lemma combine_const (c : T) (l : list T) (g : T -> T -> result T) :
+    mapM_ (fun x => g c x) l = mapM_ (fun p => g (fst p) (snd p)) (combine (map (fun _ => c) l) l).
+  Proof. induction l as [|x l IH]; cbn; [reflexivity|]. rewrite IH. reflexivity. Qed.
+  Lemma map_fst_combine (l ys : list T) : length ys = length l -> map (fun p : T * T => fst p) (combine ys l) = ys.
+  Proof. revert ys; induction l as [|x l IH]; intros [|y ys] H; cbn in *; try discriminate; [reflexivity|]. f_equal. apply IH. lia. Qed.
+  Lemma len1 (l : list T) : length l = 1 -> exists x0, l = [x0].
+  Proof. destruct l as [|x [|x' l]]; cbn; intros H; try discriminate. eauto. Qed.
+
+  Section Samples.
+    Variable xs : list T.
+    Hypothesis Hxs : xs <> [].
+    Hypothesis Hrok : 2 <= length xs \/ k = 1.
+
+    Lemma term_membership_samples st t E :
+      over st -> e_inputs E = row_inputs -> simple_term t ->
+      match term_membership_b st t (Mat [xs]) with
+      | Ok m => exists ms, m = Mat [ms] /\ mapM_ (tm E t) xs = Ok ms
+      | Err er => forall x, tm E t x = Err er
+      end.
+    Proof.
+      intros Hst HE Ht. destruct t as [name s|name xy h|name cs|name [f|] vars]; cbn [term_membership_b term_membership].
+      - eexists; split; [reflexivity|]. apply mapM__pure.
+      - destruct xy as [|p xy]; [reflexivity|]. eexists; split; [reflexivity|]. apply mapM__pure.
+      - contradiction.
+      - reflexivity.
+      - reflexivity.
+    Qed.
+
+    (* the (k, r) matrix of Aggregated.membership as seen from row i *)
+    Definition yok (y : arr T) : Prop :=
+      match y with
+      | Sc _ => True
+      | Vec l => length l = length xs /\ 2 <= length xs
+      | Mat rows => length rows = k /\ 2 <= k /\ 2 <= length xs /\ Forall (fun row => length row = length xs) rows
+      end.
+    Definition ystrict (y : arr T) : Prop := yok y /\ match y with Sc _ => length xs = 1 | _ => True end.
+    Definition yrow (y : arr T) : list T :=
+      match y with Sc c => map (fun _ => c) xs | Vec l => l | Mat rows => nth i rows [] end.
+
+    Lemma yrow_length y : yok y -> length (yrow y) = length xs.
+    Proof.
+      destruct y as [c|l|rows]; cbn.
+      - intros _. apply map_length.
+      - tauto.
+      - intros (Hk & _ & _ & Hf). rewrite Forall_forall in Hf. apply Hf. apply nth_In. lia.
+    Qed.
+
+    Lemma squeeze_one_row (row : list T) : squeeze (Mat [row]) = match row with [c] => Sc c | _ => Vec row end.
+    Proof. destruct row as [|c [|c' row]]; reflexivity. Qed.
+
+    (* one row [f d m_1 .. f d m_r], squeezed *)
+    Lemma single_row_strict (g : T -> T) (ms : list T) :
+      length ms = length xs -> ystrict (squeeze (Mat [map g ms])) /\ yrow (squeeze (Mat [map g ms])) = map g ms.
+    Proof.
+      intros Hl. rewrite squeeze_one_row.
+      destruct ms as [|m [|m' ms]]; cbn [map length] in *.
+      - exfalso. apply Hxs. apply length_zero_iff_nil. symmetry. exact Hl.
+      - split; [split; [exact I | symmetry; exact Hl]|].
+        destruct (len1 xs (eq_sym Hl)) as (x0 & E). cbn [yrow]. rewrite E. reflexivity.
+      - split; [|reflexivity]. split; [|exact I]. cbn. rewrite map_length. split; [exact Hl | lia].
+    Qed.
+
+    Lemma activated_membership_samples st a E :
+      over st -> e_inputs E = row_inputs -> rowshape k (ba_degree a) -> simple_term (ba_term a) ->
+      match activated_membership_b st a (Mat [xs]) with
+      | Ok y => ystrict y /\ mapM_ (activated_membership fe E (proj_act a)) xs = Ok (yrow y)
+      | Err er => forall x, activated_membership fe E (proj_act a) x = Err er
+      end.
+    Proof.
+      intros Hst HE Hd Ht. unfold activated_membership_b, activated_membership. cbn [proj_act a_implication a_term a_degree].
+      destruct (ba_implication a) as [imp|]; [|reflexivity].
+      pose proof (term_membership_samples st (ba_term a) E Hst HE Ht) as Hm.
+      destruct (term_membership_b st (ba_term a) (Mat [xs])) as [m|er]; cbn [bind]; [|intros x; rewrite Hm; reflexivity].
+      destruct Hm as (ms & -> & Hms). rewrite mapM__bind_pure, Hms.
+      pose proof (mapM__length _ _ _ Hms) as Hlen'.
+      destruct (ba_degree a) as [d|ds|rr]; cbn [rowshape] in Hd; [| |contradiction].
+      - rewrite lift2_outer_scalar. cbn [bind aget].
+        destruct (single_row_strict (tnormx_compute imp d) ms Hlen') as [H1 H2]. split; [exact H1|]. rewrite H2. reflexivity.
+      - rewrite lift2_outer. cbn [bind aget]. unfold outer.
+        destruct ds as [|d0 [|d1 ds]]; cbn [length] in Hd.
+        + lia.
+        + assert (Ei : i = 0) by lia. rewrite Ei. cbn [map nth].
+          destruct (single_row_strict (tnormx_compute imp d0) ms Hlen') as [H1 H2]. split; [exact H1|]. rewrite H2. reflexivity.
+        + assert (Hr2 : 2 <= length xs) by (destruct Hrok; [assumption | lia]).
+          set (rows := map (fun d => map (tnormx_compute imp d) ms) (d0 :: d1 :: ds)).
+          assert (Hsq : squeeze (Mat rows) = Mat rows).
+          { subst rows. cbn [map]. rewrite squeeze_two_rows, map_length, Hlen'.
+            destruct (Nat.eqb_spec (length xs) 1); [lia | reflexivity]. }
+          rewrite Hsq. split.
+          * split; [|exact I]. cbn [yok]. subst rows. rewrite map_length. cbn [length]. split; [exact Hd|].
+            split; [lia|]. split; [exact Hr2|]. apply Forall_forall. intros row Hrow. apply in_map_iff in Hrow.
+            destruct Hrow as (d & <- & _). rewrite map_length. exact Hlen'.
+          * cbn [yrow]. subst rows. rewrite (nth_map_lt _ (d0 :: d1 :: ds) i nan) by (cbn [length]; lia). reflexivity.
+    Qed.
+
+    (* broadcasting of two such matrices: row i of the result is the elementwise combination of the rows i *)
+    Lemma map2_const_l {A B C : Type} (f : A -> B -> C) (c : A) (la : list T) (l : list B) :
+      length l = length la -> map2 f (map (fun _ => c) la) l = map (f c) l.
+    Proof. revert l; induction la as [|a la IH]; intros [|b l] H; cbn in *; try discriminate; [reflexivity|]. f_equal. apply IH. lia. Qed.
+    Lemma map2_const_both {A B C : Type} (f : A -> B -> C) (c : A) (c' : B) (la : list T) :
+      map2 f (map (fun _ => c) la) (map (fun _ => c') la) = map (fun _ => f c c') la.
+    Proof. induction la as [|a la IH]; cbn; [reflexivity|]. f_equal. exact IH. Qed.
+
+    Lemma mapM__rows_l (f : T -> T -> T) (la : list T) (rb : list (list T)) :
+      Forall (fun row => length row = length la) rb -> mapM_ (bcast_row f la) rb = Ok (map (map2 f la) rb).
+    Proof.
+      intros H. rewrite (mapM__ext _ (fun row => Ok (map2 f la row))); [apply mapM__pure|].
+      intros row Hrow. rewrite Forall_forall in H. apply bcast_row_eq_len. symmetry. apply H. exact Hrow.
+    Qed.
+    Lemma mapM__rows_r (f : T -> T -> T) (ra : list (list T)) (lb : list T) :
+      Forall (fun row => length row = length lb) ra -> mapM_ (fun a => bcast_row f a lb) ra = Ok (map (fun a => map2 f a lb) ra).
+    Proof.
+      intros H. rewrite (mapM__ext _ (fun row => Ok (map2 f row lb))); [apply mapM__pure|].
+      intros row Hrow. rewrite Forall_forall in H. apply bcast_row_eq_len. apply H. exact Hrow.
+    Qed.
+    Lemma mapM__rows_both (f : T -> T -> T) (ra rb : list (list T)) n :
+      Forall (fun row => length row = n) ra -> Forall (fun row => length row = n) rb -> length ra = length rb ->
+      mapM_ (fun p => bcast_row f (fst p) (snd p)) (combine ra rb) = Ok (map2 (map2 f) ra rb).
+    Proof.
+      revert rb; induction ra as [|a ra IH]; intros [|b rb] Ha Hb Hl; cbn in *; try discriminate; [reflexivity|].
+      inversion Ha; inversion Hb; subst. rewrite bcast_row_eq_len by congruence. cbn.
+      rewrite (IH rb) by (assumption || lia). reflexivity.
+    Qed.
+
+    Lemma lift2_y (f : T -> T -> T) (y m : arr T) :
+      yok y -> ystrict m ->
+      exists y', lift2 f y m = Ok y' /\ ystrict y' /\ yrow y' = map2 f (yrow y) (yrow m).
+    Proof.
+      intros Hy [Hm Hms].
+      destruct y as [c|la|ra], m as [c'|lb|rb]; cbn [yok] in Hy, Hm; cbn [lift2 yrow].
+      - eexists; split; [reflexivity|]. split; [split; [exact I | exact Hms]|]. symmetry. apply map2_const_both.
+      - eexists; split; [reflexivity|]. split.
+        + split; [|exact I]. cbn. rewrite map_length. exact Hm.
+        + cbn. symmetry. apply map2_const_l. tauto.
+      - eexists; split; [reflexivity|]. destruct Hm as (Hk & Hk2 & Hr2 & Hf). split.
+        + split; [|exact I]. cbn. rewrite map_length. split; [exact Hk|]. split; [exact Hk2|]. split; [exact Hr2|].
+          apply Forall_forall. intros row Hrow. apply in_map_iff in Hrow. destruct Hrow as (row' & <- & Hrow').
+          rewrite map_length. rewrite Forall_forall in Hf. apply Hf. exact Hrow'.
+        + cbn. rewrite (nth_map_lt _ rb i []) by lia. symmetry. apply map2_const_l.
+          rewrite Forall_forall in Hf. apply Hf. apply nth_In. lia.
+      - lia.
+      - rewrite bcast_row_eq_len by (destruct Hy, Hm; congruence). cbn [bind].
+        eexists; split; [reflexivity|]. split; [|reflexivity]. split; [|exact I]. cbn.
+        rewrite map2_length by (destruct Hy, Hm; congruence). exact Hy.
+      - destruct Hy as [Hla Hr2], Hm as (Hk & Hk2 & _ & Hf).
+        unfold bcast_rows, bcast. rewrite mapM__rows_l by (rewrite Hla; exact Hf). cbn [bind].
+        eexists; split; [reflexivity|]. split.
+        + split; [|exact I]. cbn. rewrite map_length. split; [exact Hk|]. split; [exact Hk2|]. split; [exact Hr2|].
+          apply Forall_forall. intros row Hrow. apply in_map_iff in Hrow. destruct Hrow as (row' & <- & Hrow').
+          rewrite map2_length; [exact Hla|]. rewrite Forall_forall in Hf. rewrite (Hf row' Hrow'). exact Hla.
+        + cbn. rewrite (nth_map_lt _ rb i []) by lia. reflexivity.
+      - destruct Hy as (_ & _ & Hr2 & _). lia.
+      - destruct Hy as (Hk & Hk2 & Hr2 & Hf), Hm as [Hlb _].
+        unfold bcast_rows, bcast.
+        destruct ra as [|a0 [|a1 ra]]; cbn [length] in Hk; try lia.
+        rewrite mapM__rows_r by (rewrite Hlb; exact Hf). cbn [bind].
+        eexists; split; [reflexivity|]. split.
+        + split; [|exact I]. cbn [yok]. rewrite map_length. split; [exact Hk|]. split; [exact Hk2|]. split; [exact Hr2|].
+          apply Forall_forall. intros row Hrow. apply in_map_iff in Hrow. destruct Hrow as (row' & <- & Hrow').
+          rewrite map2_length; rewrite Forall_forall in Hf; rewrite (Hf row' Hrow'); [reflexivity | congruence].
+        + cbn [yrow]. rewrite (nth_map_lt _ (a0 :: a1 :: ra) i []) by (cbn [length]; lia). reflexivity.
+      - destruct Hy as (Hka & Hk2 & Hr2 & Hfa), Hm as (Hkb & _ & _ & Hfb).
+        unfold bcast_rows, bcast.
+        destruct ra as [|a0 [|a1 ra]]; cbn [length] in Hka; try lia.
+        destruct rb as [|b0 [|b1 rb]]; cbn [length] in Hkb; try lia.
+        replace (Nat.eqb (length (a0 :: a1 :: ra)) (length (b0 :: b1 :: rb))) with true
+          by (symmetry; apply Nat.eqb_eq; cbn [length]; lia).
+        rewrite (mapM__rows_both f _ _ (length xs) Hfa Hfb) by (cbn [length]; lia). cbn [bind].
+        eexists; split; [reflexivity|]. split.
+        + split; [|exact I]. cbn [yok]. rewrite map2_length by (cbn [length]; lia). split; [exact Hka|].
+          split; [exact Hk2|]. split; [exact Hr2|].
+          apply Forall_forall. intros row Hrow. apply In_nth_error in Hrow. destruct Hrow as (j & Hj).
+          rewrite map2_nth_error in Hj.
+          destruct (nth_error (a0 :: a1 :: ra) j) as [ra_j|] eqn:Ea; [|discriminate].
+          destruct (nth_error (b0 :: b1 :: rb) j) as [rb_j|] eqn:Eb; [|discriminate].
+          injection Hj as <-. rewrite Forall_forall in Hfa, Hfb.
+          pose proof (Hfa _ (nth_error_In _ _ Ea)). pose proof (Hfb _ (nth_error_In _ _ Eb)).
+          rewrite map2_length; congruence.
+        + cbn [yrow]. apply (map2_nth (map2 f) _ _ i [] [] []); cbn [length]; lia.
+    Qed.
+
+    (* ---- Aggregated.membership *)
+    Definition fzsimple (l : list (bactivated T)) : Prop := Forall (fun a => simple_term (ba_term a)) l.
+
+    Lemma aggregate_from_samples st E agg l : forall y,
+      over st -> e_inputs E = row_inputs -> fzshape l -> fzsimple l -> yok y -> (l = [] -> ystrict y) ->
+      match aggregate_from_b st agg y l (Mat [xs]) with
+      | Ok y' => ystrict y' /\
+                 mapM_ (fun p => aggregate_from fe E agg (fst p) (map proj_act l) (snd p)) (combine (yrow y) xs) = Ok (yrow y')
+      | Err er => forall y0 x, In x xs -> aggregate_from fe E agg y0 (map proj_act l) x = Err er
+      end.
+    Proof.
+      induction l as [|a l IH]; intros y Hst HE Hsh Hsi Hy Hnil; cbn [aggregate_from_b map].
+      - split; [apply Hnil; reflexivity|]. cbn [aggregate_from].
+        rewrite (mapM__pure (fun p : T * T => fst p)). f_equal.
+        apply map_fst_combine. apply yrow_length. exact Hy.
+      - inversion Hsh as [|a' l' Ha Hl]; inversion Hsi as [|a'' l'' Hta Htl]; subst.
+        pose proof (activated_membership_samples st a E Hst HE Ha Hta) as Hm.
+        destruct (activated_membership_b st a (Mat [xs])) as [m|er]; cbn [bind].
+        + destruct Hm as [Hms Hmv].
+          destruct (lift2_y (snormx_compute agg) y m Hy Hms) as (y1 & Hy1 & Hy1s & Hy1v). rewrite Hy1. cbn [bind].
+          specialize (IH y1 Hst HE Hl Htl (proj1 Hy1s) (fun _ => Hy1s)).
+          destruct (aggregate_from_b st agg y1 l (Mat [xs])) as [y'|er].
+          * destruct IH as [Hy' IH]. split; [exact Hy'|]. cbn [aggregate_from].
+            pose proof (mapM__combine_step _ (snormx_compute agg)
+                       (fun p => aggregate_from fe E agg (fst p) (map proj_act l) (snd p)) xs (yrow y) (yrow m) Hmv (yrow_length y Hy)) as Hstep.
+            cbn [fst snd] in Hstep. rewrite Hstep, <- Hy1v. exact IH.
+          * intros y0 x Hx. cbn [aggregate_from].
+            destruct (mapM__In _ _ _ x Hmv Hx) as (mx & Hmx). rewrite Hmx. cbn [bind]. apply IH. exact Hx.
+        + intros y0 x Hx. cbn [aggregate_from]. rewrite Hm. reflexivity.
+    Qed.
+
+    Lemma aggregated_membership_samples st E agg fz (ov : output_var T) :
+      over st -> e_inputs E = row_inputs -> fzshape fz -> fzsimple fz ->
+      ov_fuzzy ov = map proj_act fz -> ov_aggregation ov = agg ->
+      match aggregated_membership_b st agg fz (Mat [xs]) with
+      | Ok y => yok y /\ (fz <> [] -> ystrict y) /\ (fz = [] -> y = Sc zero) /\
+                mapM_ (aggregated_membership fe E ov) xs = Ok (yrow y)
+      | Err er => mapM_ (aggregated_membership fe E ov) xs = Err er
+      end.
+    Proof.
+      intros Hst HE Hsh Hsi Hf Ha. unfold aggregated_membership_b.
+      destruct fz as [|a fz].
+      - split; [exact I|]. split; [congruence|]. split; [reflexivity|].
+        rewrite (mapM__ext _ (fun _ => Ok zero)).
+        + cbn [yrow]. apply mapM__pure.
+        + intros x _. unfold aggregated_membership. rewrite Hf. reflexivity.
+      - destruct agg as [s|].
+        + pose proof (aggregate_from_samples st E s (a :: fz) (Sc zero) Hst HE Hsh Hsi I (fun H => ltac:(discriminate))) as H.
+          assert (Hsc : forall x, aggregated_membership fe E ov x = aggregate_from fe E s zero (map proj_act (a :: fz)) x).
+          { intros x. unfold aggregated_membership. rewrite Hf, Ha. reflexivity. }
+          rewrite (mapM__ext _ _ xs (fun x _ => Hsc x)).
+          destruct (aggregate_from_b st s (Sc zero) (a :: fz) (Mat [xs])) as [y|er].
+          * destruct H as [Hy H]. split; [exact (proj1 Hy)|]. split; [intros _; exact Hy|]. split; [discriminate|].
+            rewrite (combine_const zero xs (fun y0 x => aggregate_from fe E s y0 (map proj_act (a :: fz)) x)). exact H.
+          * apply mapM__err; [|exact Hxs]. intros x Hx. apply H. exact Hx.
+        + apply mapM__err; [|exact Hxs]. intros x _. unfold aggregated_membership. rewrite Hf, Ha. reflexivity.
+    Qed.
+  End Samples.
+  (* ---- integral defuzzifiers *)
+  Hypothesis ZL : @zero_laws T N.
+
+  Lemma defuzz_row_scalar kd (xs : list T) (c : T) : xs <> [] -> (length xs = 1 \/ c = zero) ->
+    defuzz_row kd xs [c] = defuzzify_samples kd xs (map (fun _ => c) xs).
+  Proof.
+    intros Hxs Hc. unfold defuzz_row. cbn [length].
+    destruct (Nat.eqb_spec (length xs) 1) as [E|E].
+    - destruct (len1 xs E) as (x0 & ->). reflexivity.
+    - destruct Hc as [Hc|Hc]; [contradiction|]. subst c.
+      destruct xs as [|x0 [|x1 xs']]; [congruence | cbn in E; congruence |].
+      apply (defuzz_narrow_zero ZL). discriminate.
+  Qed.
+
+  Lemma mapM__all_ok {A B : Type} (f : A -> result B) (l : list A) :
+    (forall a, In a l -> exists b, f a = Ok b) -> exists l', mapM_ f l = Ok l'.
+  Proof.
+    induction l as [|a l IH]; intros H; cbn; [eauto|].
+    destruct (H a (or_introl eq_refl)) as (b & ->). cbn.
+    destruct IH as (l' & ->); [intros a' Ha'; apply H; right; exact Ha'|]. cbn. eauto.
+  Qed.
+
+  Lemma integral_defuzzify_row st E kd res lo hi agg fz (ov : output_var T) :
+    over st -> e_inputs E = row_inputs -> fzshape fz -> fzsimple fz -> (2 <= res \/ k = 1) ->
+    ov_fuzzy ov = map proj_act fz -> ov_aggregation ov = agg -> ov_min ov = lo -> ov_max ov = hi ->
+    match integral_defuzzify_b st kd res lo hi agg fz with
+    | Ok a => rowshape k a /\ defuzzifier_value fe E ov (DIntegral kd res) = Ok (aget nan a i)
+    | Err er => defuzzifier_value fe E ov (DIntegral kd res) = Err er
+    end.
+  Proof.
+    intros Hst HE Hsh Hsi Hres Hf Ha Hlo Hhi. unfold integral_defuzzify_b. cbn [defuzzifier_value]. rewrite Hlo, Hhi.
+    destruct (midpoints lo hi res) as [xs|er] eqn:Hmid; cbn [bind]; [|reflexivity].
+    destruct (midpoints_length lo hi res xs Hmid) as [Hlen' Hres0].
+    assert (Hxs : xs <> []) by (intros ->; cbn in Hlen'; congruence).
+    assert (Hrok : 2 <= length xs \/ k = 1) by (rewrite Hlen'; exact Hres).
+    rewrite mapM_eq.
+    pose proof (aggregated_membership_samples xs Hxs Hrok st E agg fz ov Hst HE Hsh Hsi Hf Ha) as H.
+    destruct (aggregated_membership_b st agg fz (Mat [xs])) as [y|er]; cbn [bind]; [|rewrite H; reflexivity].
+    destruct H as (Hy & Hstrict & Hnil & Hv). rewrite Hv. cbn [bind].
+    destruct y as [c|l|rows]; cbn [rows_of yrow].
+    - cbn [mapM_]. rewrite (defuzz_row_scalar kd xs c Hxs).
+      + destruct (defuzzify_samples kd xs (map (fun _ => c) xs)) as [z|er]; cbn [bind]; [|reflexivity].
+        split; [exact I | reflexivity].
+      + destruct fz as [|a0 fz]; [right; specialize (Hnil eq_refl); congruence|].
+        left. apply (Hstrict ltac:(discriminate)).
+    - cbn [mapM_]. destruct Hy as [Hl _]. unfold defuzz_row. rewrite <- Hl, Nat.eqb_refl.
+      destruct (defuzzify_samples kd xs l) as [z|er]; cbn [bind]; [|reflexivity].
+      split; [exact I | reflexivity].
+    - destruct Hy as (Hk & Hk2 & Hr2 & Hrows).
+      rewrite (mapM__ext _ (defuzzify_samples kd xs)).
+      + destruct (mapM__all_ok (defuzzify_samples kd xs) rows) as (zs & Hzs).
+        { intros row Hrow. apply defuzzify_samples_ok; [|exact Hxs]. rewrite Forall_forall in Hrows. symmetry. apply Hrows. exact Hrow. }
+        rewrite Hzs. cbn [bind]. pose proof (mapM__length _ _ _ Hzs) as Hzl.
+        assert (Hsq : squeeze (Vec zs) = Vec zs) by (destruct zs as [|z0 [|z1 zs]]; cbn in Hzl; try lia; reflexivity).
+        rewrite Hsq. split; [cbn; lia|].
+        destruct (mapM__nth _ _ _ i (nth i rows []) Hzs (nth_error_nth_some rows i [] ltac:(lia))) as (b & Hb & Hnb).
+        rewrite Hb. cbn [aget]. f_equal. symmetry. apply nth_error_nth. exact Hnb.
+      + intros row Hrow. unfold defuzz_row. rewrite Forall_forall in Hrows. rewrite (Hrows row Hrow), Nat.eqb_refl. reflexivity.
+  Qed.
+
+  Lemma defuzzifier_value_row st E (ov0 ov : output_var T) fz dz :
+    over st -> e_inputs E = row_inputs -> fzshape fz ->
+    ov_static ov = ov_static ov0 -> ov_fuzzy ov = map proj_act fz ->
+    (forall kd res, dz = DIntegral kd res -> fzsimple fz /\ (2 <= res \/ k = 1)) ->
+    match defuzzifier_value_b st ov0 fz dz with
+    | Ok a => rowshape k a /\ defuzzifier_value fe E ov dz = Ok (aget nan a i)
+    | Err er => defuzzifier_value fe E ov dz = Err er
+    end.
+  Proof.
+    intros Hst HE Hsh Hs Hf Hint. destruct (ov_static_fields _ _ Hs) as (_ & _ & Hagg & _ & Hmin & Hmax & _).
+    destruct dz as [kd res|average ty]; cbn [defuzzifier_value_b].
+    - destruct (Hint kd res eq_refl) as [Hsi Hres].
+      apply integral_defuzzify_row; auto.
+    - cbn [defuzzifier_value]. rewrite Hagg, Hf. apply weighted_defuzzify_row; assumption.
+  Qed.
+
+  (* ================================================================================================ *)
+  (* 5. The cascade on a batch = the one-element cascade folded over the rows                          *)
+  (* ================================================================================================ *)
+  Hypothesis ML : minmax_laws N.
+
+  Definition cfg_of (ov : output_var T) : cascade_cfg T :=
+    {| cc_enabled := true; cc_has_defuzzifier := true; cc_lock_previous := ov_lock_previous ov; cc_default := ov_default ov;
+       cc_lock_range := ov_lock_range ov; cc_min := ov_min ov; cc_max := ov_max ov |}.
+
+  (* one row: the documented cascade *)
+  Lemma cascade_one lp dv lr lo hi p d :
+    cascade_values lp dv lr lo hi p [d]
+    = [row {| cc_enabled := true; cc_has_defuzzifier := true; cc_lock_previous := lp; cc_default := dv;
+              cc_lock_range := lr; cc_min := lo; cc_max := hi |} p d].
+  Proof.
+    unfold cascade_values, row, set_value, default_subst. cbn [cc_lock_previous cc_default cc_lock_range cc_min cc_max].
+    destruct lp, (isnan dv), lr; cbn [fill_forward andb negb map]; destruct (isnan d) eqn:Ed; cbn [map andb]; rewrite ?Ed; reflexivity.
+  Qed.
+
+  Lemma row_idem c p d : row c (row c p d) d = row c p d.
+  Proof.
+    rewrite !row_fin. destruct (cc_lock_previous c && isnan d); [|reflexivity].
+    apply (fin_idem (ml_max N ML) (ml_min N ML)).
+  Qed.
+
+  (* the scalar OutputVariable.defuzzify in normal form *)
+  Definition ov_commit (ov : output_var T) (d : T) : output_var T :=
+    {| ov_name := ov_name ov; ov_enabled := ov_enabled ov; ov_min := ov_min ov; ov_max := ov_max ov;
+       ov_lock_range := ov_lock_range ov; ov_lock_previous := ov_lock_previous ov; ov_default := ov_default ov;
+       ov_aggregation := ov_aggregation ov; ov_defuzzifier := ov_defuzzifier ov; ov_terms := ov_terms ov;
+       ov_value := row (cfg_of ov) (ov_value ov) d; ov_previous := ov_value ov; ov_fuzzy := ov_fuzzy ov |}.
+
+  Lemma output_defuzzify_eq E (ov : output_var T) :
+    output_defuzzify fe E ov =
+    if negb (ov_enabled ov) then Ok ov
+    else match ov_defuzzifier ov with
+         | None => Err EValue
+         | Some dz => do d <- defuzzifier_value fe E ov dz; Ok (ov_commit ov d)
+         end.
+  Proof.
+    unfold output_defuzzify, defuzzify_fields.
+    destruct (ov_enabled ov) eqn:Hen; cbn [negb].
+    - destruct (ov_defuzzifier ov) as [dz|] eqn:Hdz; [|reflexivity].
+      destruct (defuzzifier_value fe E ov dz) as [d|er]; cbn [bind]; [|reflexivity].
+      cbn [take_last cs_value last is_empty andb]. rewrite andb_false_r. rewrite cascade_one. cbn [last cs_value cs_previous].
+      unfold ov_commit, cfg_of. rewrite ?Hen, ?Hdz. reflexivity.
+    - destruct ov; cbn in *. subst. destruct ov_defuzzifier; reflexivity.
+  Qed.
+
+  (* OutputVariable.defuzzify on a batch, starting from a scalar value *)
+  Lemma output_defuzzify_b_eq st (ov0 : output_var T) (bo : boutput T) v0 :
+    bo_value bo = Sc v0 ->
+    output_defuzzify_b st ov0 bo =
+    if negb (ov_enabled ov0) then Ok bo
+    else match ov_defuzzifier ov0 with
+         | None => Err EValue
+         | Some dz =>
+             do a <- defuzzifier_value_b st ov0 (bo_fuzzy bo) dz;
+             match a with
+             | Mat _ => Err EInternal
+             | _ => if ov_lock_previous ov0 && is_empty (ravel a) then Err EValue
+                    else Ok {| bo_fuzzy := bo_fuzzy bo;
+                               bo_value := reshape_like a (spec_rows (cfg_of ov0) v0 (ravel a)); bo_previous := v0 |}
+             end
+         end.
+  Proof.
+    intros Hv. unfold output_defuzzify_b. destruct (negb (ov_enabled ov0)); [reflexivity|].
+    destruct (ov_defuzzifier ov0) as [dz|]; [|reflexivity].
+    destruct (defuzzifier_value_b st ov0 (bo_fuzzy bo) dz) as [a|er]; cbn [bind]; [|reflexivity].
+    rewrite Hv. unfold defuzzify_fields. cbn [negb ravel take_last last cs_value].
+    pose proof (cascade_values_spec (ml_max N ML) (ml_min N ML) (cfg_of ov0) v0) as Hspec. cbn [cfg_of cc_lock_previous cc_default cc_lock_range cc_min cc_max] in Hspec.
+    destruct a as [d|l|r]; cbn [bind ravel]; [| |reflexivity].
+    - cbn [is_empty]. rewrite andb_false_r. rewrite Hspec. reflexivity.
+    - destruct (ov_lock_previous ov0 && is_empty l); [reflexivity|]. rewrite Hspec. reflexivity.
+  Qed.
+
+  (* one output variable, row i: success / failure agree; the committed value of row i is element i of the batch value,
+     provided the row started from element i-1 (or, for the first row, from the value held before the batch) *)
+  Lemma output_defuzzify_row st E (ov0 ov : output_var T) (bo : boutput T) v0 :
+    over st -> e_inputs E = row_inputs ->
+    ov_static ov = ov_static ov0 -> ov_fuzzy ov = map proj_act (bo_fuzzy bo) -> fzshape (bo_fuzzy bo) -> bo_value bo = Sc v0 ->
+    (forall kd res, ov_defuzzifier ov0 = Some (DIntegral kd res) -> fzsimple (bo_fuzzy bo) /\ (2 <= res \/ k = 1)) ->
+    match output_defuzzify_b st ov0 bo with
+    | Ok bo' => exists ov', output_defuzzify fe E ov = Ok ov' /\ ov_static ov' = ov_static ov0 /\ ov_fuzzy ov' = ov_fuzzy ov /\
+                            bo_fuzzy bo' = bo_fuzzy bo /\
+                            (ov_value ov = match i with 0 => v0 | S i' => aget nan (bo_value bo') i' end ->
+                             ov_value ov' = aget nan (bo_value bo') i)
+    | Err er => output_defuzzify fe E ov = Err er
+    end.
+  Proof.
+    intros Hst HE Hs Hf Hsh Hv Hint.
+    destruct (ov_static_fields _ _ Hs) as (Hen & _ & _ & Hdz & Hmin & Hmax & Hlr & Hlp & Hdv).
+    rewrite (output_defuzzify_b_eq st ov0 bo v0 Hv), output_defuzzify_eq, Hen, Hdz.
+    destruct (ov_enabled ov0) eqn:Hen0; cbn [negb].
+    - destruct (ov_defuzzifier ov0) as [dz|] eqn:Hdz0; [|reflexivity].
+      pose proof (defuzzifier_value_row st E ov0 ov (bo_fuzzy bo) dz Hst HE Hsh Hs Hf
+                    (fun kd res Hd => Hint kd res (f_equal Some Hd))) as H.
+      destruct (defuzzifier_value_b st ov0 (bo_fuzzy bo) dz) as [a|er]; cbn [bind]; [|rewrite H; reflexivity].
+      destruct H as [Ha H]. rewrite H. cbn [bind].
+      assert (Hcfg : cfg_of ov = cfg_of ov0) by (unfold cfg_of; rewrite Hmin, Hmax, Hlr, Hlp, Hdv; reflexivity).
+      destruct a as [d|l|r]; cbn [rowshape] in Ha; [| |contradiction].
+      + cbn [ravel is_empty]. rewrite andb_false_r. cbn [spec_rows reshape_like].
+        eexists. split; [reflexivity|]. split; [exact Hs|].
+        split; [reflexivity|]. split; [reflexivity|]. cbn [ov_commit ov_value aget bo_value]. rewrite Hcfg.
+        intros Hprev. rewrite Hprev. destruct i as [|i']; [reflexivity | apply row_idem].
+      + assert (Hne' : is_empty l = false) by (destruct l; [cbn in Ha; lia | reflexivity]).
+        cbn [ravel]. rewrite Hne', andb_false_r.
+        eexists. split; [reflexivity|]. split; [exact Hs|].
+        split; [reflexivity|]. split; [reflexivity|]. cbn [ov_commit ov_value aget bo_value]. rewrite Hcfg.
+        assert (Hrl : reshape_like (Vec l) (spec_rows (cfg_of ov0) v0 l) = Vec (spec_rows (cfg_of ov0) v0 l)) by reflexivity.
+        rewrite Hrl. cbn [aget]. intros Hprev. rewrite Hprev.
+        rewrite (spec_rows_nth (cfg_of ov0) l v0 i) by lia. reflexivity.
+    - exists ov. split; [reflexivity|]. split; [exact Hs|]. split; [reflexivity|]. split; [reflexivity|].
+      rewrite Hv. cbn [aget]. intros Hprev. rewrite Hprev. destruct i; reflexivity.
+  Qed.
 End Row.
+
+(* ================================================================================================ *)
+(* 6. Composition                                                                                    *)
+(* ================================================================================================ *)
+Section ScalarSide.
+  Context {T : Type} {N : Num T}.
+  Notation fe := (@no_function T).
+
+  Lemma no_function_ext : forall e1 e2 : engine T,
+    e_inputs e1 = e_inputs e2 -> e_outputs e1 = e_outputs e2 -> fe e1 = fe e2.
+  Proof. reflexivity. Qed.
+
+  (* ---- Engine.process leaves the rule blocks unchanged up to the stored degrees / flags *)
+  Lemma rule_step_deactivated E cj dj im outs (r : rule T) ro :
+    rule_step fe E cj dj im outs r = Ok ro -> rule_deactivated (fst ro) = rule_deactivated r.
+  Proof.
+    unfold rule_step. destruct (rule_loaded r); [|intros H; injection H as <-; reflexivity].
+    destruct (rule_activate_with _ _ _ _ r) as [d|]; cbn [bind]; [|discriminate].
+    destruct (r_enabled r).
+    - destruct (modify d im (r_consequent r) outs); cbn [bind]; [|discriminate]. intros H; injection H as <-. reflexivity.
+    - intros H; injection H as <-. reflexivity.
+  Qed.
+  Lemma rules_step_deactivated E cj dj im (rs : list (rule T)) : forall outs ro,
+    rules_step fe E cj dj im outs rs = Ok ro -> map (@rule_deactivated T N) (fst ro) = map (@rule_deactivated T N) rs.
+  Proof.
+    induction rs as [|r rs IH]; intros outs ro H; cbn [rules_step] in H.
+    - injection H as <-. reflexivity.
+    - destruct (rule_step fe E cj dj im outs r) as [ro1|] eqn:H1; cbn [bind] in H; [|discriminate].
+      destruct (rules_step fe E cj dj im (snd ro1) rs) as [ro2|] eqn:H2; cbn [bind] in H; [|discriminate].
+      injection H as <-. cbn [fst map]. rewrite (rule_step_deactivated _ _ _ _ _ _ _ H1), (IH _ _ H2). reflexivity.
+  Qed.
+  Lemma blocks_step_deactivated E (bs : list (block T)) : forall outs bo,
+    blocks_step fe E outs bs = Ok bo -> map (@block_deactivated T N) (fst bo) = map (@block_deactivated T N) bs.
+  Proof.
+    induction bs as [|b bs IH]; intros outs bo H; cbn [blocks_step] in H.
+    - injection H as <-. reflexivity.
+    - destruct (b_enabled b).
+      + destruct (rules_step fe E _ _ _ outs (b_rules b)) as [ro|] eqn:H1; cbn [bind] in H; [|discriminate].
+        destruct (blocks_step fe E (snd ro) bs) as [rest|] eqn:H2; cbn [bind] in H; [|discriminate].
+        injection H as <-. cbn [fst map]. rewrite (IH _ _ H2). f_equal.
+        unfold block_deactivated, set_rules. cbn. rewrite (rules_step_deactivated _ _ _ _ _ _ _ H1). reflexivity.
+      + destruct (blocks_step fe E outs bs) as [rest|] eqn:H2; cbn [bind] in H; [|discriminate].
+        injection H as <-. cbn [fst map]. rewrite (IH _ _ H2). reflexivity.
+  Qed.
+  Lemma process_blocks (E e' : engine T) : general_only E -> process fe E = Ok e' ->
+    map (@block_deactivated T N) (e_blocks e') = map (@block_deactivated T N) (e_blocks E).
+  Proof.
+    intros Hg H. rewrite (process_eq_spec fe no_function_ext E Hg) in H. unfold process_spec in H.
+    destruct (blocks_step fe E _ (e_blocks E)) as [bo|] eqn:H1; cbn [bind] in H; [|discriminate].
+    destruct (pipeline_values fe E [] (snd bo)); cbn [bind] in H; [|discriminate].
+    injection H as <-. cbn [e_blocks]. exact (blocks_step_deactivated _ _ _ _ H1).
+  Qed.
+
+  (* ---- input variables up to their value *)
+  Definition iv_static (iv : input_var T) : input_var T :=
+    {| iv_name := iv_name iv; iv_enabled := iv_enabled iv; iv_min := iv_min iv; iv_max := iv_max iv;
+       iv_lock_range := iv_lock_range iv; iv_terms := iv_terms iv; iv_value := nan |}.
+
+  (* set_inputs on the carried engine = row i of the batch inputs of the starting engine *)
+  Lemma set_inputs_row (e e_i : engine T) (rows : list (list T)) (i : nat) :
+    map iv_static (e_inputs e_i) = map iv_static (e_inputs e) ->
+    rect_rows (length (e_inputs e)) rows -> i < length rows ->
+    e_inputs (set_inputs e_i (nth i rows [])) = row_inputs e (batch_inputs e rows) i.
+  Proof.
+    intros Hs Hrect Hi. unfold set_inputs, row_inputs. cbn [e_inputs].
+    unfold rect_rows in Hrect. rewrite Forall_forall in Hrect. pose proof (Hrect _ (nth_In rows [] Hi)) as Hl.
+    apply nth_error_ext. intros j. rewrite !map2_nth_error.
+    pose proof (map_eq_nth iv_static _ _ j Hs) as Hj.
+    destruct (nth_error (e_inputs e_i) j) as [iv'|], (nth_error (e_inputs e) j) as [iv|] eqn:Hiv; try contradiction; [|reflexivity].
+    rewrite (batch_inputs_nth e rows j iv Hiv).
+    assert (Hjn : j < length (e_inputs e)) by (apply nth_error_Some; congruence).
+    rewrite (nth_error_nth_some (nth i rows []) j nan) by lia.
+    f_equal. unfold iv_at. cbn [aget]. rewrite (nth_map_lt _ rows i []) by exact Hi.
+    unfold iv_static in Hj. injection Hj as H1 H2 H3 H4 H5 H6. unfold iv_clip. rewrite H1, H2, H3, H4, H5, H6. reflexivity.
+  Qed.
+
+  Lemma row_inputs_static (e : engine T) (ins : list (arr T)) i :
+    length ins = length (e_inputs e) -> map iv_static (row_inputs e ins i) = map iv_static (e_inputs e).
+  Proof.
+    intros Hl. unfold row_inputs. apply nth_error_ext. intros j. rewrite !nth_error_map, map2_nth_error.
+    destruct (nth_error (e_inputs e) j) as [iv|] eqn:Hiv; [|reflexivity].
+    destruct (nth_error ins j) as [a|] eqn:Ha; [reflexivity|].
+    apply nth_error_None in Ha. assert (j < length (e_inputs e)) by (apply nth_error_Some; congruence). lia.
+  Qed.
+End ScalarSide.
+
+Section BatchSide.
+  Context {T : Type} {N : Num T}.
+  Variable e : engine T.
+
+  (* what the activation phase does to the batch outputs: it only appends activations of the variable's own terms *)
+  Definition terms_of (ov : output_var T) (b : boutput T) : Prop := Forall (fun a => In (ba_term a) (ov_terms ov)) (bo_fuzzy b).
+  Definition bgrow (b b' : boutput T) : Prop := bo_value b' = bo_value b /\ bo_previous b' = bo_previous b.
+  Definition binv (bouts0 bouts : list (boutput T)) : Prop :=
+    Forall2 bgrow bouts0 bouts /\ Forall2 terms_of (e_outputs e) bouts.
+
+  Lemma Forall2_update_nth_r {A B : Type} (R : A -> B -> Prop) (f : B -> B) j (la : list A) (lb : list B) :
+    Forall2 R la lb -> (forall a b, nth_error la j = Some a -> R a b -> R a (f b)) -> Forall2 R la (update_nth j f lb).
+  Proof.
+    intros H. revert j. induction H as [|a b la lb Hab Hl IH]; intros j Hf; [destruct j; constructor|].
+    destruct j as [|j]; cbn [update_nth].
+    - constructor; [apply Hf; [reflexivity | exact Hab] | exact Hl].
+    - constructor; [exact Hab|]. apply IH. intros a' b' Hn. apply Hf. exact Hn.
+  Qed.
+
+  Lemma modify_loop_b_inv carry impl cs : forall D bouts0 bouts bouts',
+    binv bouts0 bouts -> modify_loop_b e carry D impl cs bouts = Ok bouts' -> binv bouts0 bouts'.
+  Proof.
+    induction cs as [|c cs IH]; intros D bouts0 bouts bouts' Hb H; cbn [modify_loop_b] in H.
+    - injection H as <-. exact Hb.
+    - destruct (nth_error (e_outputs e) (c_var c)) as [v|] eqn:Hv; [|discriminate].
+      destruct (negb (var_truthy v)); [discriminate|].
+      destruct (ov_enabled v); [|exact (IH _ _ _ _ Hb H)].
+      destruct (nth_error (ov_terms v) (c_term c)) as [t|] eqn:Ht; [|discriminate].
+      refine (IH _ _ _ _ _ H). destruct Hb as [Hg Ht']. split.
+      + apply Forall2_update_nth_r; [exact Hg|]. intros a b _ [H1 H2]. split; assumption.
+      + apply Forall2_update_nth_r; [exact Ht'|]. intros ov b Hov Hb'. rewrite Hv in Hov. injection Hov as <-.
+        unfold terms_of. cbn. apply Forall_app. split; [exact Hb'|]. constructor; [|constructor].
+        cbn. eapply nth_error_In. exact Ht.
+  Qed.
+
+  Lemma blocks_step_b_inv (st : bstate T) : bs_e st = e -> forall bs bouts0 bouts recs ro,
+    binv bouts0 bouts -> blocks_step_b st bouts bs recs = Ok ro -> binv bouts0 (snd ro).
+  Proof.
+    intros Hse.
+    assert (Hrule : forall cj dj im bouts0 bouts r ro, binv bouts0 bouts -> rule_step_b st cj dj im bouts r = Ok ro -> binv bouts0 (snd ro)).
+    { intros cj dj im bouts0 bouts r ro Hb H. unfold rule_step_b in H.
+      destruct (rule_loaded r); [|injection H as <-; exact Hb].
+      destruct (rule_activate_with_b _ cj dj r) as [D|]; cbn [bind] in H; [|discriminate].
+      destruct (r_enabled r); [|injection H as <-; exact Hb].
+      destruct (modify_b (bs_e st) D im (r_consequent r) bouts) as [bouts'|] eqn:Hm; cbn [bind] in H; [|discriminate].
+      injection H as <-. cbn [snd]. unfold modify_b in Hm. rewrite Hse in Hm. destruct (is_nil (r_consequent r)); [discriminate|].
+      exact (modify_loop_b_inv _ _ _ _ _ _ _ Hb Hm). }
+    assert (Hrules : forall cj dj im rs bouts0 bouts ro, binv bouts0 bouts -> rules_step_b st cj dj im bouts rs = Ok ro -> binv bouts0 (snd ro)).
+    { intros cj dj im rs. induction rs as [|r rs IH]; intros bouts0 bouts ro Hb H; cbn [rules_step_b] in H.
+      - injection H as <-. exact Hb.
+      - destruct (rule_step_b st cj dj im bouts r) as [ro1|] eqn:H1; cbn [bind] in H; [|discriminate].
+        destruct (rules_step_b st cj dj im (snd ro1) rs) as [ro2|] eqn:H2; cbn [bind] in H; [|discriminate].
+        injection H as <-. cbn [snd]. exact (IH _ _ _ (Hrule _ _ _ _ _ _ _ Hb H1) H2). }
+    induction bs as [|b bs IH]; intros bouts0 bouts recs ro Hb H; cbn [blocks_step_b] in H.
+    - injection H as <-. exact Hb.
+    - destruct (b_enabled b).
+      + destruct (is_general_b b); [|discriminate].
+        destruct (rules_step_b st _ _ _ bouts (b_rules b)) as [ro1|] eqn:H1; cbn [bind] in H; [|discriminate].
+        destruct (blocks_step_b st (snd ro1) bs _) as [ro2|] eqn:H2; cbn [bind] in H; [|discriminate].
+        injection H as <-. cbn [snd]. exact (IH _ _ _ _ (Hrules _ _ _ _ _ _ _ Hb H1) H2).
+      + destruct (blocks_step_b st bouts bs _) as [ro2|] eqn:H2; cbn [bind] in H; [|discriminate].
+        injection H as <-. cbn [snd]. exact (IH _ _ _ _ Hb H2).
+  Qed.
+End BatchSide.
+
+Section Top.
+  Context {T : Type} {N : Num T}.
+  Notation fe := (@no_function T).
+  Variables (e : engine T) (rows : list (list T)).
+  Notation k := (length rows).
+  Notation ins := (batch_inputs e rows).
+
+  (* every output variable with an integral defuzzifier has no Linear term (a Linear term's membership is one value per
+     ROW of the batch whatever the sample points: in a batch it does not broadcast against the sample row) *)
+  Definition integral_simple (e : engine T) : Prop :=
+    forall ov kd res, In ov (e_outputs e) -> ov_defuzzifier ov = Some (DIntegral kd res) -> Forall simple_term (ov_terms ov).
+
+  Hypothesis Hn : e_inputs e <> [].
+  Hypothesis Hk : rows <> [].
+  Hypothesis Hrect : rect_rows (length (e_inputs e)) rows.
+  Hypothesis Hg : general_only e.
+  Hypothesis ZL : @zero_laws T N.
+  Hypothesis ML : minmax_laws N.
+  Hypothesis Hrok : r_ok e k.
+  Hypothesis Hsimple : integral_simple e.
+
+  Lemma ins_colshape : Forall (colshape k) ins.
+  Proof. apply batch_inputs_colshape. Qed.
+  Lemma ins_length : length ins = length (e_inputs e).
+  Proof. apply batch_inputs_length. Qed.
+
+  Section AtRow.
+    Variable i : nat.
+    Hypothesis Hi : i < k.
+    Variables (st : bstate T) (E : engine T).
+    Hypothesis Hst : over e ins st.
+    Hypothesis HE : e_inputs E = row_inputs e ins i.
+
+    Definition PRE (ov0 ov : output_var T) (bo : boutput T) : Prop :=
+      ov_static ov = ov_static ov0 /\ ov_fuzzy ov = map (proj_act i) (bo_fuzzy bo) /\ fzshape k (bo_fuzzy bo) /\
+      bo_value bo = Sc (ov_value ov0) /\
+      (forall kd res, ov_defuzzifier ov0 = Some (DIntegral kd res) -> fzsimple (bo_fuzzy bo) /\ (2 <= res \/ k = 1)).
+    Definition POST (ov0 ov : output_var T) (bo bo' : boutput T) (ov' : output_var T) : Prop :=
+      ov_static ov' = ov_static ov0 /\ ov_fuzzy ov' = ov_fuzzy ov /\ bo_fuzzy bo' = bo_fuzzy bo /\
+      (ov_value ov = match i with 0 => ov_value ov0 | S i' => aget nan (bo_value bo') i' end ->
+       ov_value ov' = aget nan (bo_value bo') i).
+
+    Lemma pipeline_values_row : forall (ovs todo : list (output_var T)) (btodo : list (boutput T)) done,
+      length todo = length ovs -> length btodo = length ovs ->
+      (forall j ov0 ov bo, nth_error ovs j = Some ov0 -> nth_error todo j = Some ov -> nth_error btodo j = Some bo -> PRE ov0 ov bo) ->
+      match mapM_ (fun p => output_defuzzify_b st (fst p) (snd p)) (combine ovs btodo) with
+      | Ok bres =>
+          exists res, pipeline_values fe E done todo = Ok (done ++ res) /\ length res = length ovs /\ length bres = length ovs /\
+            forall j ov0 ov bo, nth_error ovs j = Some ov0 -> nth_error todo j = Some ov -> nth_error btodo j = Some bo ->
+              exists bo' ov', nth_error bres j = Some bo' /\ nth_error res j = Some ov' /\ POST ov0 ov bo bo' ov'
+      | Err er => pipeline_values fe E done todo = Err er
+      end.
+    Proof.
+      induction ovs as [|ov0 ovs IH]; intros todo btodo done Hl1 Hl2 Hpre.
+      - destruct todo; [|discriminate]. destruct btodo; [|discriminate]. cbn [combine mapM_ pipeline_values].
+        exists []. rewrite app_nil_r. repeat split; try reflexivity. intros j ? ? ? Hj. destruct j; discriminate.
+      - destruct todo as [|ov todo]; [discriminate|]. destruct btodo as [|bo btodo]; [discriminate|].
+        cbn [combine mapM_ pipeline_values fst snd].
+        destruct (Hpre 0 ov0 ov bo eq_refl eq_refl eq_refl) as (Hs & Hf & Hsh & Hv & Hint).
+        pose proof (output_defuzzify_row e ins k i Hi ins_colshape ins_length Hn ZL ML st
+                      (with_outputs E (done ++ ov :: todo)) ov0 ov bo (ov_value ov0) Hst HE Hs Hf Hsh Hv Hint) as H.
+        destruct (output_defuzzify_b st ov0 bo) as [bo'|er]; cbn [bind]; [|rewrite H; reflexivity].
+        destruct H as (ov' & H1 & Hs' & Hf' & Hbf & Hval). rewrite H1. cbn [bind].
+        specialize (IH todo btodo (done ++ [ov']) ltac:(cbn in Hl1; lia) ltac:(cbn in Hl2; lia)
+                      (fun j a b c Ha Hb Hc => Hpre (S j) a b c Ha Hb Hc)).
+        destruct (mapM_ _ (combine ovs btodo)) as [bres|er]; cbn [bind]; [|exact IH].
+        destruct IH as (res & Hp & Hlr & Hlb & Hpost). exists (ov' :: res).
+        split; [rewrite Hp, <- app_assoc; reflexivity|]. split; [cbn; lia|]. split; [cbn; lia|].
+        intros j a b c Ha Hb Hc. destruct j as [|j].
+        + cbn in Ha, Hb, Hc. injection Ha as <-. injection Hb as <-. injection Hc as <-.
+          exists bo', ov'. split; [reflexivity|]. split; [reflexivity|]. repeat split; assumption.
+        + exact (Hpost j a b c Ha Hb Hc).
+    Qed.
+  End AtRow.
+  (* ---- the batch run, step by step *)
+  Notation st0 := (init_bstate e ins).
+  Notation bouts0 := (map bo_clear_fuzzy (bs_outputs st0)).
+
+  Lemma over_st0 : over e ins st0.
+  Proof. split; reflexivity. Qed.
+
+  Lemma bouts0_nth j : nth_error bouts0 j =
+    option_map (fun ov => {| bo_fuzzy := []; bo_value := Sc (ov_value ov); bo_previous := ov_previous ov |}) (nth_error (e_outputs e) j).
+  Proof. cbn [init_bstate bs_outputs]. rewrite map_map, nth_error_map. destruct (nth_error (e_outputs e) j); reflexivity. Qed.
+
+  Lemma binv0 : binv e bouts0 bouts0.
+  Proof.
+    cbn [init_bstate bs_outputs]. rewrite map_map. split.
+    - induction (e_outputs e) as [|ov l IH]; cbn; constructor; [split; reflexivity | exact IH].
+    - induction (e_outputs e) as [|ov l IH]; cbn; constructor; [constructor | exact IH].
+  Qed.
+
+  Variable ro : list (list (brule T)) * list (boutput T).
+  Hypothesis B1 : blocks_step_b st0 bouts0 (e_blocks e) (bs_rules st0) = Ok ro.
+  Notation bouts := (snd ro).
+
+  Lemma bouts_inv : binv e bouts0 bouts.
+  Proof. exact (blocks_step_b_inv e st0 eq_refl _ _ _ _ _ binv0 B1). Qed.
+
+  Lemma Forall2_nth {A B : Type} (R : A -> B -> Prop) la lb j a :
+    Forall2 R la lb -> nth_error la j = Some a -> exists b, nth_error lb j = Some b /\ R a b.
+  Proof.
+    intros H. revert j. induction H as [|a0 b0 la lb H0 Hl IH]; intros j Hj; [destruct j; discriminate|].
+    destruct j as [|j]; cbn in *; [injection Hj as <-; eauto | exact (IH j Hj)].
+  Qed.
+  Lemma Forall2_len {A B : Type} (R : A -> B -> Prop) la lb : Forall2 R la lb -> length la = length lb.
+  Proof. induction 1; cbn; congruence. Qed.
+
+  Lemma bouts_length : length bouts = length (e_outputs e).
+  Proof. destruct bouts_inv as [_ H]. symmetry. exact (Forall2_len _ _ _ H). Qed.
+
+  Lemma bouts_nth j ov0 : nth_error (e_outputs e) j = Some ov0 ->
+    exists bo, nth_error bouts j = Some bo /\ bo_value bo = Sc (ov_value ov0) /\ terms_of ov0 bo.
+  Proof.
+    intros Hj. destruct bouts_inv as [Hg' Ht].
+    destruct (Forall2_nth _ _ _ j ov0 Ht Hj) as (bo & Hbo & Hterms). exists bo. split; [exact Hbo|]. split; [|exact Hterms].
+    pose proof (bouts0_nth j) as H0. rewrite Hj in H0. cbn [option_map] in H0.
+    destruct (Forall2_nth _ _ _ j _ Hg' H0) as (bo2 & Hbo2 & [Hv _]). rewrite Hbo in Hbo2. injection Hbo2 as <-. exact Hv.
+  Qed.
+
+  Variable bres : list (boutput T).
+  Hypothesis B2 : defuzzify_outputs_b st0 (e_outputs e) bouts = Ok bres.
+
+  Lemma B2' : mapM_ (fun p => output_defuzzify_b st0 (fst p) (snd p)) (combine (e_outputs e) bouts) = Ok bres.
+  Proof. unfold defuzzify_outputs_b in B2. destruct (Nat.eqb _ _); [exact B2 | discriminate]. Qed.
+
+  (* the carried engine before row i *)
+  Record Jinv (i : nat) (e_i : engine T) : Prop := {
+    J1 : map iv_static (e_inputs e_i) = map iv_static (e_inputs e);
+    J2 : map ov_static (e_outputs e_i) = map ov_static (e_outputs e);
+    J3 : map (@block_deactivated T N) (e_blocks e_i) = map (@block_deactivated T N) (e_blocks e);
+    J4 : forall j ov ov0 bo', nth_error (e_outputs e_i) j = Some ov -> nth_error (e_outputs e) j = Some ov0 ->
+           nth_error bres j = Some bo' ->
+           ov_value ov = match i with 0 => ov_value ov0 | S i' => aget nan (bo_value bo') i' end }.
+
+  Lemma Jinv0 : Jinv 0 e.
+  Proof. split; try reflexivity. intros j ov ov0 bo' H1 H2 _. congruence. Qed.
+
+  Definition result_row (i : nat) : list (T * list (string * T)) :=
+    map (fun bo => (aget nan (bo_value bo) i, row_fuzzy i (bo_fuzzy bo))) bres.
+
+  Lemma orel0 i (e_i : engine T) : map ov_static (e_outputs e_i) = map ov_static (e_outputs e) ->
+    orel e k i (map clear_fuzzy (e_outputs e_i)) bouts0.
+  Proof.
+    intros H2. split; [|split].
+    - rewrite map_map. exact H2.
+    - pose proof (map_eq_length _ _ _ H2) as Hl.
+      apply nth_error_ext. intros j.
+      rewrite (nth_error_map (@ov_fuzzy T) j), (nth_error_map (@clear_fuzzy T) j).
+      rewrite (nth_error_map (fun bo => map (proj_act i) (bo_fuzzy bo)) j bouts0), bouts0_nth.
+      destruct (nth_error (e_outputs e_i) j) as [ov|] eqn:H1, (nth_error (e_outputs e) j) as [ov0|] eqn:H0; cbn; try reflexivity.
+      + apply nth_error_None in H0. assert (j < length (e_outputs e_i)) by (apply nth_error_Some; congruence). lia.
+      + apply nth_error_None in H1. assert (j < length (e_outputs e)) by (apply nth_error_Some; congruence). lia.
+    - apply Forall_forall. intros bo Hbo. apply In_nth_error in Hbo. destruct Hbo as (j & Hj).
+      rewrite bouts0_nth in Hj. destruct (nth_error (e_outputs e) j); cbn in Hj; [|discriminate]. injection Hj as <-. constructor.
+  Qed.
+
+  Lemma step_row i (e_i : engine T) : i < k -> Jinv i e_i ->
+    exists e', process fe (set_inputs e_i (nth i rows [])) = Ok e' /\ Jinv (S i) e' /\ engine_row e' = result_row i.
+  Proof.
+    intros Hi [HJ1 HJ2 HJ3 HJ4].
+    set (E := set_inputs e_i (nth i rows [])).
+    assert (HE : e_inputs E = row_inputs e ins i) by (exact (set_inputs_row e e_i rows i HJ1 Hrect Hi)).
+    assert (HbE : e_blocks E = e_blocks e_i) by reflexivity.
+    assert (HoE : e_outputs E = e_outputs e_i) by reflexivity.
+    assert (HgE : general_only E) by (apply (general_only_ext e E); [rewrite HbE; symmetry; exact HJ3 | exact Hg]).
+    pose proof (process_refines_pipeline fe no_function_ext E HgE) as Hproc.
+    unfold pipeline_outputs, pipeline_fuzzy in Hproc.
+    rewrite (blocks_contribution_ext fe no_function_ext E E eq_refl (e_blocks E) (e_blocks e)
+               (map clear_fuzzy (e_outputs E)) ltac:(rewrite HbE; exact HJ3)) in Hproc.
+    rewrite HoE in Hproc.
+    pose proof (blocks_step_row e ins k i Hi ins_colshape ins_length Hn st0 E (e_blocks e) (map clear_fuzzy (e_outputs e_i))
+                  bouts0 (bs_rules st0) over_st0 HE (orel0 i e_i HJ2) Hg) as Hblocks.
+    rewrite B1 in Hblocks. destruct Hblocks as (outs' & Hbc & Horel).
+    rewrite Hbc in Hproc. cbn [bind] in Hproc.
+    pose proof (blocks_contribution_grow fe E (e_blocks e) _ outs' Hbc) as Hgrow.
+    assert (Hlen_outs' : length outs' = length (e_outputs e)).
+    { destruct Horel as (H1 & _ & _). apply map_eq_length in H1. exact H1. }
+    (* per-index facts about outs' *)
+    assert (Hidx : forall j ov0 ov bo, nth_error (e_outputs e) j = Some ov0 -> nth_error outs' j = Some ov -> nth_error bouts j = Some bo ->
+                   PRE i ov0 ov bo /\
+                   (forall bo', nth_error bres j = Some bo' ->
+                      ov_value ov = match i with 0 => ov_value ov0 | S i' => aget nan (bo_value bo') i' end)).
+    { intros j ov0 ov bo H0 H1 Hb.
+      pose proof (orel_nth e k i outs' bouts j Horel) as Hn'. rewrite H1, H0, Hb in Hn'. destruct Hn' as (Hs & Hf & Hsh).
+      destruct (bouts_nth j ov0 H0) as (bo2 & Hbo2 & Hv & Hterms). rewrite Hb in Hbo2. injection Hbo2 as <-.
+      split.
+      - split; [exact Hs|]. split; [exact Hf|]. split; [exact Hsh|]. split; [exact Hv|].
+        intros kd res Hd. split.
+        + pose proof (Hsimple ov0 kd res (nth_error_In _ _ H0) Hd) as Hst'. rewrite Forall_forall in Hst'.
+          apply Forall_forall. intros a Ha. unfold terms_of in Hterms. rewrite Forall_forall in Hterms. apply Hst'. apply Hterms. exact Ha.
+        + destruct Hrok as [Hk1|Hr]; [right; exact Hk1 | left; exact (Hr ov0 kd res (nth_error_In _ _ H0) Hd)].
+      - intros bo' Hbo'.
+        destruct (nth_error (map clear_fuzzy (e_outputs e_i)) j) as [oc|] eqn:Hoc.
+        + destruct (Forall2_nth _ _ _ j oc Hgrow Hoc) as (ov2 & Hov2 & (l & Hl & _)). rewrite H1 in Hov2. injection Hov2 as <-.
+          rewrite nth_error_map in Hoc. destruct (nth_error (e_outputs e_i) j) as [oi|] eqn:Hoi; cbn in Hoc; [|discriminate].
+          injection Hoc as <-. rewrite Hl. cbn. exact (HJ4 j oi ov0 bo' Hoi H0 Hbo').
+        + apply nth_error_None in Hoc. rewrite <- (Forall2_len _ _ _ Hgrow) in Hlen_outs'.
+          assert (j < length (e_outputs e)) by (apply nth_error_Some; congruence). lia. }
+    pose proof (pipeline_values_row i Hi st0 E over_st0 HE (e_outputs e) outs' bouts [] Hlen_outs' bouts_length
+                  (fun j a b c Ha Hb Hc => proj1 (Hidx j a b c Ha Hb Hc))) as Hpv.
+    rewrite B2' in Hpv. destruct Hpv as (res & Hpv & Hlr & Hlb & Hpost). cbn [app] in Hpv.
+    rewrite Hpv in Hproc.
+    destruct (process fe E) as [e'|er] eqn:Hp; [|contradiction]. destruct Hproc as [Hout Hin].
+    exists e'. split; [reflexivity|].
+    (* per-index facts about the result *)
+    assert (Hres : forall j ov', nth_error res j = Some ov' ->
+              exists ov0 ov bo bo', nth_error (e_outputs e) j = Some ov0 /\ nth_error outs' j = Some ov /\ nth_error bouts j = Some bo /\
+                                    nth_error bres j = Some bo' /\ POST i ov0 ov bo bo' ov' /\ PRE i ov0 ov bo /\
+                                    ov_value ov = match i with 0 => ov_value ov0 | S i' => aget nan (bo_value bo') i' end).
+    { intros j ov' Hj. assert (Hjl : j < length (e_outputs e)) by (rewrite <- Hlr; apply nth_error_Some; congruence).
+      destruct (nth_error (e_outputs e) j) as [ov0|] eqn:H0; [|apply nth_error_None in H0; lia].
+      destruct (nth_error outs' j) as [ov|] eqn:H1; [|apply nth_error_None in H1; lia].
+      destruct (nth_error bouts j) as [bo|] eqn:Hb; [|apply nth_error_None in Hb; rewrite bouts_length in Hb; lia].
+      destruct (Hpost j ov0 ov bo H0 H1 Hb) as (bo' & ov2 & Hbo' & Hov2 & HP). rewrite Hj in Hov2. injection Hov2 as <-.
+      destruct (Hidx j ov0 ov bo H0 H1 Hb) as [Hpre Hval].
+      exists ov0, ov, bo, bo'.
+      exact (conj eq_refl (conj eq_refl (conj eq_refl (conj Hbo' (conj HP (conj Hpre (Hval bo' Hbo'))))))). }
+    split.
+    - split.
+      + rewrite Hin, HE. apply row_inputs_static. apply ins_length.
+      + rewrite Hout. apply nth_error_ext. intros j. rewrite !nth_error_map.
+        destruct (nth_error res j) as [ov'|] eqn:Hj.
+        * destruct (Hres j ov' Hj) as (ov0 & ov & bo & bo' & H0 & _ & _ & _ & HP & _). rewrite H0. cbn. f_equal. apply HP.
+        * apply nth_error_None in Hj. rewrite Hlr in Hj. apply nth_error_None in Hj. rewrite Hj. reflexivity.
+      + rewrite (process_blocks E e' HgE Hp), HbE. exact HJ3.
+      + intros j ov' ov0 bo' Hj H0 Hbo'. rewrite Hout in Hj.
+        destruct (Hres j ov' Hj) as (ov0' & ov & bo & bo2 & H0' & _ & _ & Hbo2 & HP & _ & Hval).
+        rewrite H0 in H0'. injection H0' as <-. rewrite Hbo' in Hbo2. injection Hbo2 as <-.
+        destruct HP as (_ & _ & _ & HPv). exact (HPv Hval).
+    - unfold engine_row, result_row. rewrite Hout. apply nth_error_ext. intros j. rewrite !nth_error_map.
+      destruct (nth_error res j) as [ov'|] eqn:Hj.
+      + destruct (Hres j ov' Hj) as (ov0 & ov & bo & bo' & H0 & H1 & Hb & Hbo' & HP & Hpre & Hval).
+        rewrite Hbo'. cbn. f_equal. destruct HP as (_ & Hf' & Hbf & HPv). destruct Hpre as (_ & Hf & _).
+        f_equal; [exact (HPv Hval)|]. rewrite Hf', Hf, Hbf. unfold row_fuzzy. rewrite map_map. reflexivity.
+      + assert (Hjl : length res <= j) by (apply nth_error_None; exact Hj).
+        rewrite (proj2 (nth_error_None bres j)) by lia. reflexivity.
+  Qed.
+  Lemma skipn_nth_cons {A : Type} (l : list A) i d : i < length l -> skipn i l = nth i l d :: skipn (S i) l.
+  Proof.
+    revert i; induction l as [|a l IH]; intros i H; [cbn in H; lia|].
+    destruct i as [|i]; [reflexivity|]. cbn [skipn nth]. apply IH. cbn in H. lia.
+  Qed.
+
+  (* the rows from i on, starting from the engine carried to row i *)
+  Lemma rows_from : forall m i (e_i : engine T), m + i = k -> Jinv i e_i ->
+    exists es, process_rows e_i (skipn i rows) = Ok es /\ length es = m /\
+               forall d, d < m -> engine_row (nth d es e) = result_row (i + d).
+  Proof.
+    induction m as [|m IH]; intros i e_i Hm HJ.
+    - rewrite skipn_all2 by lia. exists []. split; [reflexivity|]. split; [reflexivity|]. intros d Hd. lia.
+    - assert (Hi : i < k) by lia. rewrite (skipn_nth_cons rows i [] Hi). cbn [process_rows].
+      destruct (step_row i e_i Hi HJ) as (e' & Hp & HJ' & Hrow). rewrite Hp. cbn [bind].
+      destruct (IH (S i) e' ltac:(lia) HJ') as (es & Hes & Hl & Hd). rewrite Hes. cbn [bind].
+      exists (e' :: es). split; [reflexivity|]. split; [cbn; lia|].
+      intros d Hdm. destruct d as [|d]; cbn [nth].
+      + rewrite Nat.add_0_r. exact Hrow.
+      + rewrite (Hd d ltac:(lia)). f_equal. lia.
+  Qed.
+End Top.
+
+(* ---- failures: when the batch run raises, the first row raises the same exception *)
+Section TopErr.
+  Context {T : Type} {N : Num T}.
+  Notation fe := (@no_function T).
+  Variables (e : engine T) (rows : list (list T)).
+  Notation k := (length rows).
+  Notation ins := (batch_inputs e rows).
+  Hypothesis Hn : e_inputs e <> [].
+  Hypothesis Hk : rows <> [].
+  Hypothesis Hrect : rect_rows (length (e_inputs e)) rows.
+  Hypothesis Hg : general_only e.
+  Hypothesis ZL : @zero_laws T N.
+  Hypothesis ML : minmax_laws N.
+  Hypothesis Hrok : r_ok e k.
+  Hypothesis Hsimple : integral_simple e.
+  Notation st0 := (init_bstate e ins).
+  Notation bouts0 := (map bo_clear_fuzzy (bs_outputs st0)).
+
+  Lemma k_pos : 0 < k.
+  Proof. destruct rows; [congruence | cbn; lia]. Qed.
+
+  Lemma first_row_err x :
+    match blocks_step_b st0 bouts0 (e_blocks e) (bs_rules st0) with
+    | Err y => y = x
+    | Ok ro => defuzzify_outputs_b st0 (e_outputs e) (snd ro) = Err x
+    end ->
+    process fe (set_inputs e (nth 0 rows [])) = Err x.
+  Proof.
+    intros Hb. pose proof k_pos as Hi.
+    set (E := set_inputs e (nth 0 rows [])).
+    assert (HE : e_inputs E = row_inputs e ins 0) by (exact (set_inputs_row e e rows 0 eq_refl Hrect Hi)).
+    assert (HgE : general_only E) by exact Hg.
+    pose proof (process_refines_pipeline fe no_function_ext E HgE) as Hproc.
+    unfold pipeline_outputs, pipeline_fuzzy in Hproc.
+    change (e_blocks E) with (e_blocks e) in Hproc. change (e_outputs E) with (e_outputs e) in Hproc.
+    pose proof (blocks_step_row e ins k 0 Hi (ins_colshape e rows) (ins_length e rows) Hn st0 E (e_blocks e) (map clear_fuzzy (e_outputs e))
+                  bouts0 (bs_rules st0) (over_st0 e rows) HE (orel0 e rows 0 e eq_refl) Hg) as Hblocks.
+    destruct (blocks_step_b st0 bouts0 (e_blocks e) (bs_rules st0)) as [ro|y] eqn:B1.
+    - destruct Hblocks as (outs' & Hbc & Horel). rewrite Hbc in Hproc. cbn [bind] in Hproc.
+      assert (Hlen_outs' : length outs' = length (e_outputs e)).
+      { destruct Horel as (H1 & _ & _). apply map_eq_length in H1. exact H1. }
+      pose proof (bouts_length e rows ro B1) as Hbl.
+      pose proof (pipeline_values_row e rows Hn ZL ML 0 Hi st0 E (over_st0 e rows) HE (e_outputs e) outs' (snd ro) [] Hlen_outs' Hbl) as Hpv.
+      unfold defuzzify_outputs_b in Hb. rewrite Hbl, Nat.eqb_refl in Hb. rewrite Hb in Hpv.
+      rewrite Hpv in Hproc.
+      + destruct (process fe E); [contradiction | congruence].
+      + intros j ov0 ov bo H0 H1 Hbo.
+        pose proof (orel_nth e k 0 outs' (snd ro) j Horel) as Hn'. rewrite H1, H0, Hbo in Hn'. destruct Hn' as (Hs & Hf & Hsh).
+        destruct (bouts_nth e rows ro B1 j ov0 H0) as (bo2 & Hbo2 & Hv & Hterms). rewrite Hbo in Hbo2. injection Hbo2 as <-.
+        split; [exact Hs|]. split; [exact Hf|]. split; [exact Hsh|]. split; [exact Hv|].
+        intros kd res Hd. split.
+        * pose proof (Hsimple ov0 kd res (nth_error_In _ _ H0) Hd) as Hst'. rewrite Forall_forall in Hst'.
+          apply Forall_forall. intros a Ha. unfold terms_of in Hterms. rewrite Forall_forall in Hterms. apply Hst'. apply Hterms. exact Ha.
+        * destruct Hrok as [Hk1|Hr]; [right; exact Hk1 | left; exact (Hr ov0 kd res (nth_error_In _ _ H0) Hd)].
+    - subst y. rewrite Hblocks in Hproc. cbn [bind] in Hproc. destruct (process fe E); [contradiction | congruence].
+  Qed.
+End TopErr.
+
+(* ---- batch_eq_rows *)
+Section Main.
+  Context {T : Type} {N : Num T}.
+
+  Theorem batch_eq_rows (e : engine T) (rows : list (list T)) :
+    e_inputs e <> [] -> rows <> [] -> rect_rows (length (e_inputs e)) rows ->
+    general_only e -> integral_simple e -> r_ok e (length rows) ->
+    @zero_laws T N -> minmax_laws N ->
+    match process_batch e (Mat rows) with
+    | Ok st => exists es, process_rows e rows = Ok es /\ length es = length rows /\
+                          forall i, i < length rows -> batch_row st i = engine_row (nth i es e)
+    | Err x => process_rows e rows = Err x
+    end.
+  Proof.
+    intros Hn Hk Hrect Hg Hsimple Hrok ZL ML.
+    unfold process_batch. rewrite (input_values_set_matrix e rows Hn Hk Hrect). cbn [bind]. unfold process_b.
+    cbn [bs_e init_bstate].
+    destruct (blocks_step_b (init_bstate e (batch_inputs e rows)) _ (e_blocks e) _) as [ro|x] eqn:B1; cbn [bind].
+    - destruct (defuzzify_outputs_b (init_bstate e (batch_inputs e rows)) (e_outputs e) (snd ro)) as [bres|x] eqn:B2; cbn [bind].
+      + destruct (rows_from e rows Hn Hrect Hg ZL ML Hrok Hsimple ro B1 bres B2 (length rows) 0 e ltac:(lia)
+                    (Jinv0 e bres)) as (es & Hes & Hl & Hd).
+        exists es. split; [exact Hes|]. split; [exact Hl|]. intros i Hi. rewrite (Hd i Hi). reflexivity.
+      + destruct rows as [|r0 rows']; [congruence|]. cbn [process_rows].
+        pose proof (first_row_err e (r0 :: rows') Hn Hk Hrect Hg ZL ML Hrok Hsimple x) as H. cbn [nth] in H.
+        rewrite H; [reflexivity|]. cbn [bs_e init_bstate] in B1 |- *. rewrite B1. exact B2.
+    - destruct rows as [|r0 rows']; [congruence|]. cbn [process_rows].
+      pose proof (first_row_err e (r0 :: rows') Hn Hk Hrect Hg ZL ML Hrok Hsimple x) as H. cbn [nth] in H.
+      rewrite H; [reflexivity|]. cbn [bs_e init_bstate] in B1 |- *. rewrite B1. reflexivity.
+  Qed.
+End Main.
+
+(* ================================================================================================ *)
+(* 7. The statements quoted by Properties/C02.v                                                      *)
+(* ================================================================================================ *)
+Section Named.
+  Context {T : Type} {N : Num T}.
+
+  (* ---- Activated.membership on a batch: squeeze(implication(degrees as a column, samples as a row)) *)
+  Theorem activated_membership_batch (st : bstate T) (a : bactivated T) name s imp (ds xs : list T) :
+    ba_term a = TShape name s -> ba_implication a = Some imp -> ba_degree a = Vec ds ->
+    (2 <= length xs \/ length ds = 1) ->
+    exists y, activated_membership_b st a (Mat [xs]) = Ok y /\
+              rows_of y = map (fun d => map (fun x => tnormx_compute imp d (shape_membership s x)) xs) ds.
+  Proof.
+    intros Ht Hi Hd Hok. unfold activated_membership_b. rewrite Hi, Ht, Hd. cbn [term_membership_b lift1 bind map].
+    rewrite lift2_outer. cbn [bind]. eexists; split; [reflexivity|].
+    unfold outer.
+    destruct ds as [|d0 ds]; [destruct Hok as [H|H]; [reflexivity | discriminate]|].
+    rewrite squeeze_rows.
+    - apply map_ext. intros d. rewrite map_map. reflexivity.
+    - destruct Hok as [H|H]; [right | left].
+      + cbn [map ncols]. rewrite !map_length. exact H.
+      + rewrite map_length. exact H.
+  Qed.
+
+  (* at ONE sample point the (k,1) matrix is squeezed to a (k,) vector and re-read as ONE row of k samples *)
+  Theorem activated_membership_resolution1 (st : bstate T) (a : bactivated T) name s imp (ds : list T) (x : T) :
+    ba_term a = TShape name s -> ba_implication a = Some imp -> ba_degree a = Vec ds -> 2 <= length ds ->
+    exists y, activated_membership_b st a (Mat [[x]]) = Ok y /\
+              rows_of y = [map (fun d => tnormx_compute imp d (shape_membership s x)) ds] /\
+              length (rows_of y) <> length ds.
+  Proof.
+    intros Ht Hi Hd Hk. unfold activated_membership_b. rewrite Hi, Ht, Hd. cbn [term_membership_b lift1 bind map].
+    rewrite lift2_outer. cbn [bind]. eexists; split; [reflexivity|]. unfold outer. cbn [map].
+    rewrite <- (map_map (fun d => tnormx_compute imp d (shape_membership s x)) (fun v => [v])).
+    rewrite squeeze_resolution1 by (rewrite map_length; exact Hk). cbn [rows_of length]. split; [reflexivity | lia].
+  Qed.
+
+  (* ---- the fixed context "row i of a batch of k rows over the engine e with input arrays ins" *)
+  Record row_ctx (e : engine T) (ins : list (arr T)) (k i : nat) (st : bstate T) (E : engine T) : Prop := {
+    rc_i : i < k;
+    rc_cols : Forall (colshape k) ins;
+    rc_len : length ins = length (e_inputs e);
+    rc_ne : e_inputs e <> [];
+    rc_over : over e ins st;                              (* the batch state is over (e, ins) *)
+    rc_E : e_inputs E = row_inputs e ins i }.             (* the scalar engine holds row i of the inputs *)
+
+  (* Aggregated.membership on the sample row: row i of the batch matrix is the scalar fold at every sample point *)
+  Theorem aggregated_membership_batch e ins k i st E (C : row_ctx e ins k i st E) (xs : list T) agg fz (ov : output_var T) :
+    xs <> [] -> (2 <= length xs \/ k = 1) -> fzshape k fz -> fzsimple fz ->
+    ov_fuzzy ov = map (proj_act i) fz -> ov_aggregation ov = agg ->
+    match aggregated_membership_b st agg fz (Mat [xs]) with
+    | Ok y => yok k xs y /\ mapM_ (aggregated_membership no_function E ov) xs = Ok (yrow i xs y)
+    | Err er => mapM_ (aggregated_membership no_function E ov) xs = Err er
+    end.
+  Proof.
+    intros Hxs Hrok Hsh Hsi Hf Ha. destruct C as [Hi _ Hl _ Hst HE].
+    pose proof (aggregated_membership_samples e ins k i Hi Hl xs Hxs Hrok st E agg fz ov Hst HE Hsh Hsi Hf Ha) as H.
+    destruct (aggregated_membership_b st agg fz (Mat [xs])); [|exact H]. destruct H as (H1 & _ & _ & H4). split; assumption.
+  Qed.
+
+  (* integral defuzzifiers: element i of the batch result is the scalar result of row i *)
+  Theorem defuzz_batch_rows e ins k i st E (C : row_ctx e ins k i st E) (ZL : @zero_laws T N) kd res fz (ov : output_var T) :
+    fzshape k fz -> fzsimple fz -> (2 <= res \/ k = 1) -> ov_fuzzy ov = map (proj_act i) fz ->
+    match integral_defuzzify_b st kd res (ov_min ov) (ov_max ov) (ov_aggregation ov) fz with
+    | Ok a => rowshape k a /\ defuzzifier_value no_function E ov (DIntegral kd res) = Ok (aget nan a i)
+    | Err er => defuzzifier_value no_function E ov (DIntegral kd res) = Err er
+    end.
+  Proof.
+    intros Hsh Hsi Hres Hf. destruct C as [Hi _ Hl _ Hst HE].
+    exact (integral_defuzzify_row e ins k i Hi Hl ZL st E kd res _ _ _ fz ov Hst HE Hsh Hsi Hres Hf eq_refl eq_refl eq_refl).
+  Qed.
+
+  (* weighted defuzzifiers *)
+  Theorem weighted_batch_rows e ins k i st E (C : row_ctx e ins k i st E) average ty agg fz :
+    fzshape k fz ->
+    match weighted_defuzzify_b st average ty agg fz with
+    | Ok a => rowshape k a /\
+              weighted_defuzzify (term_membership no_function E) term_tsukamoto average ty agg (map (proj_act i) fz) = Ok (aget nan a i)
+    | Err er => weighted_defuzzify (term_membership no_function E) term_tsukamoto average ty agg (map (proj_act i) fz) = Err er
+    end.
+  Proof.
+    intros Hsh. destruct C as [Hi Hc Hl Hne Hst HE].
+    exact (weighted_defuzzify_row e ins k i Hi Hc Hl Hne st E average ty agg fz Hst HE Hsh).
+  Qed.
+
+  (* ---- the cascade on a k-vector = the one-element cascade folded over the rows
+          (split invariance of Proofs/CascadeProofs.v with all-singleton cuts) *)
+  Theorem cascade_batch_rows {F : Type} (L : minmax_laws N) (c : cascade_cfg T) (ds : list T) (st : cstate T F) :
+    callable c -> cs_value st <> [] -> ds <> [] ->
+    fst (fst (run_calls c (map (fun d => [d]) ds) st)) = cs_value (fst (defuzzify_step c (Ok ds) st)) /\
+    snd (run_calls c (map (fun d => [d]) ds) st) = None /\
+    snd (defuzzify_step c (Ok ds) st) = None.
+  Proof.
+    intros Hc Hv Hds.
+    assert (Hcat : forall l : list T, List.concat (map (fun d => [d]) l) = l) by (induction l as [|d l IH]; cbn; [reflexivity | f_equal; apply IH]).
+    specialize (Hcat ds).
+    pose proof (split_invariance_L L c (map (fun d => [d]) ds) st Hc Hv) as H. rewrite Hcat in H. apply H.
+    - destruct ds; [congruence | discriminate].
+    - apply Forall_forall. intros ch Hch. apply in_map_iff in Hch. destruct Hch as (d & <- & _). discriminate.
+  Qed.
+
+  (* ---- the other ways of setting a batch reduce to the matrix form *)
+  Theorem process_batch_shapes (e : engine T) :
+    let n := length (e_inputs e) in
+    (forall x, process_batch e (Sc x) = process_batch e (Mat [repeat x n])) /\
+    (forall l, n = 1 -> process_batch e (Vec l) = process_batch e (Mat (map (fun x => [x]) l))) /\
+    (forall l, n <> 1 -> process_batch e (Vec l) = process_batch e (Mat [l])).
+  Proof.
+    cbv zeta. destruct (input_values_set_shapes e) as (H1 & H2 & H3 & _). unfold process_batch.
+    split; [|split].
+    - intros x. rewrite H1. reflexivity.
+    - intros l Hn. rewrite (H2 l Hn). reflexivity.
+    - intros l Hn. rewrite (H3 l Hn). reflexivity.
+  Qed.
+
+  Theorem process_batch_vars_matrix (e : engine T) (rows : list (list T)) :
+    e_inputs e <> [] -> rows <> [] -> rect_rows (length (e_inputs e)) rows ->
+    process_batch_vars e (map (@Vec T) (cols_of nan (length (e_inputs e)) rows)) = process_batch e (Mat rows).
+  Proof.
+    intros Hn Hk Hrect. unfold process_batch_vars, process_batch. rewrite (input_values_set_matrix e rows Hn Hk Hrect). cbn [bind].
+    f_equal. f_equal. unfold inputs_assign, batch_inputs.
+    generalize (cols_of nan (length (e_inputs e)) rows) as cols. clear Hn Hk Hrect.
+    induction (e_inputs e) as [|iv l IH]; intros [|c cols]; cbn; try reflexivity.
+    rewrite iv_set_value_vec. f_equal. apply IH.
+  Qed.
+End Named.
